@@ -5433,675 +5433,791 @@ pub fn p1161() {
 
 pub fn p1169() {
     let a: re::math::point::Point2<re::render::Model> = mk();
-    let b: re::math::point::Point2<re::render::Model> = mk();
+    let b: re::math::angle::PolarVec = mk();
     let _ = a + b;
+}
+
+pub fn p1170() {
+    let a: re::math::point::Point2<re::render::Model> = mk();
+    let b: re::math::angle::PolarVec = mk();
+    let _ = a + b.to_cart();
+}
+
+pub fn p1171() {
+    let a: re::math::point::Point2<re::render::Model> = mk();
+    let b: re::math::angle::PolarVec = mk();
+    let _ = a + b.into();
 }
 
 pub fn p1172() {
     let a: re::math::point::Point2<re::render::Model> = mk();
-    let b: re::math::point::Point2<()> = mk();
+    let b: re::math::point::Point2<re::render::Model> = mk();
     let _ = a + b;
-}
-
-pub fn p1173() {
-    let a: re::math::point::Point2<re::render::Model> = mk();
-    let b: re::math::point::Point2<()> = mk();
-    let _ = re::math::Lerp::lerp(&a, &b, 0.5);
-}
-
-pub fn p1174() {
-    let a: re::math::point::Point2<re::render::Model> = mk();
-    let b: re::math::point::Point2<()> = mk();
-    let _ = a - b;
 }
 
 pub fn p1175() {
     let a: re::math::point::Point2<re::render::Model> = mk();
-    let b: re::math::point::Point2<re::render::World> = mk();
+    let b: re::math::point::Point2<()> = mk();
     let _ = a + b;
 }
 
 pub fn p1176() {
     let a: re::math::point::Point2<re::render::Model> = mk();
-    let b: re::math::point::Point2<re::render::World> = mk();
+    let b: re::math::point::Point2<()> = mk();
     let _ = re::math::Lerp::lerp(&a, &b, 0.5);
 }
 
 pub fn p1177() {
     let a: re::math::point::Point2<re::render::Model> = mk();
-    let b: re::math::point::Point2<re::render::World> = mk();
+    let b: re::math::point::Point2<()> = mk();
     let _ = a - b;
 }
 
 pub fn p1178() {
     let a: re::math::point::Point2<re::render::Model> = mk();
-    let b: re::math::point::Point3<re::render::Model> = mk();
+    let b: re::math::point::Point2<re::render::World> = mk();
     let _ = a + b;
 }
 
 pub fn p1179() {
     let a: re::math::point::Point2<re::render::Model> = mk();
-    let b: re::math::point::Point3<re::render::Model> = mk();
+    let b: re::math::point::Point2<re::render::World> = mk();
     let _ = re::math::Lerp::lerp(&a, &b, 0.5);
 }
 
 pub fn p1180() {
     let a: re::math::point::Point2<re::render::Model> = mk();
-    let b: re::math::point::Point3<re::render::Model> = mk();
+    let b: re::math::point::Point2<re::render::World> = mk();
     let _ = a - b;
 }
 
 pub fn p1181() {
     let a: re::math::point::Point2<re::render::Model> = mk();
-    let b: re::math::point::Point3<()> = mk();
+    let b: re::math::point::Point3<re::render::Model> = mk();
     let _ = a + b;
 }
 
 pub fn p1182() {
     let a: re::math::point::Point2<re::render::Model> = mk();
-    let b: re::math::point::Point3<()> = mk();
+    let b: re::math::point::Point3<re::render::Model> = mk();
     let _ = re::math::Lerp::lerp(&a, &b, 0.5);
 }
 
 pub fn p1183() {
     let a: re::math::point::Point2<re::render::Model> = mk();
-    let b: re::math::point::Point3<()> = mk();
+    let b: re::math::point::Point3<re::render::Model> = mk();
     let _ = a - b;
 }
 
 pub fn p1184() {
     let a: re::math::point::Point2<re::render::Model> = mk();
-    let b: re::math::point::Point3<re::render::World> = mk();
+    let b: re::math::point::Point3<()> = mk();
     let _ = a + b;
 }
 
 pub fn p1185() {
     let a: re::math::point::Point2<re::render::Model> = mk();
-    let b: re::math::point::Point3<re::render::World> = mk();
+    let b: re::math::point::Point3<()> = mk();
     let _ = re::math::Lerp::lerp(&a, &b, 0.5);
 }
 
 pub fn p1186() {
     let a: re::math::point::Point2<re::render::Model> = mk();
-    let b: re::math::point::Point3<re::render::World> = mk();
+    let b: re::math::point::Point3<()> = mk();
     let _ = a - b;
+}
+
+pub fn p1187() {
+    let a: re::math::point::Point2<re::render::Model> = mk();
+    let b: re::math::point::Point3<re::render::World> = mk();
+    let _ = a + b;
 }
 
 pub fn p1188() {
     let a: re::math::point::Point2<re::render::Model> = mk();
-    let b: re::math::vec::Vec2<()> = mk();
-    let _ = a + b;
+    let b: re::math::point::Point3<re::render::World> = mk();
+    let _ = re::math::Lerp::lerp(&a, &b, 0.5);
 }
 
 pub fn p1189() {
     let a: re::math::point::Point2<re::render::Model> = mk();
-    let b: re::math::vec::Vec2<re::render::World> = mk();
-    let _ = a + b;
+    let b: re::math::point::Point3<re::render::World> = mk();
+    let _ = a - b;
 }
 
 pub fn p1190() {
     let a: re::math::point::Point2<re::render::Model> = mk();
-    let b: re::math::vec::Vec3<re::render::Model> = mk();
+    let b: re::math::angle::SphericalVec = mk();
     let _ = a + b;
 }
 
 pub fn p1191() {
     let a: re::math::point::Point2<re::render::Model> = mk();
+    let b: re::math::angle::SphericalVec = mk();
+    let _ = a + b.to_cart();
+}
+
+pub fn p1192() {
+    let a: re::math::point::Point2<re::render::Model> = mk();
+    let b: re::math::angle::SphericalVec = mk();
+    let _ = a + b.into();
+}
+
+pub fn p1194() {
+    let a: re::math::point::Point2<re::render::Model> = mk();
+    let b: re::math::vec::Vec2<()> = mk();
+    let _ = a + b;
+}
+
+pub fn p1195() {
+    let a: re::math::point::Point2<re::render::Model> = mk();
+    let b: re::math::vec::Vec2<re::render::World> = mk();
+    let _ = a + b;
+}
+
+pub fn p1196() {
+    let a: re::math::point::Point2<re::render::Model> = mk();
+    let b: re::math::vec::Vec3<re::render::Model> = mk();
+    let _ = a + b;
+}
+
+pub fn p1197() {
+    let a: re::math::point::Point2<re::render::Model> = mk();
     let b: re::math::vec::Vec3<()> = mk();
     let _ = a + b;
 }
 
-pub fn p1192() {
+pub fn p1198() {
     let a: re::math::point::Point2<re::render::Model> = mk();
     let b: re::math::vec::Vec3<re::render::World> = mk();
     let _ = a + b;
 }
 
-pub fn p1193() {
-    let a: re::math::point::Point2<()> = mk();
-    let b: re::math::point::Point2<re::render::Model> = mk();
-    let _ = a + b;
-}
-
-pub fn p1194() {
-    let a: re::math::point::Point2<()> = mk();
-    let b: re::math::point::Point2<re::render::Model> = mk();
-    let _ = re::math::Lerp::lerp(&a, &b, 0.5);
-}
-
-pub fn p1195() {
-    let a: re::math::point::Point2<()> = mk();
-    let b: re::math::point::Point2<re::render::Model> = mk();
-    let _ = a - b;
-}
-
-pub fn p1196() {
-    let a: re::math::point::Point2<()> = mk();
-    let b: re::math::point::Point2<()> = mk();
-    let _ = a + b;
-}
-
 pub fn p1199() {
-    let a: re::math::point::Point2<()> = mk();
-    let b: re::math::point::Point2<re::render::World> = mk();
-    let _ = a + b;
+    let a: re::math::point::Point2<re::render::Model> = mk();
+    let _ = [a.clone(), a].into_iter().sum::<re::math::point::Point2<re::render::Model>>();
 }
 
 pub fn p1200() {
     let a: re::math::point::Point2<()> = mk();
-    let b: re::math::point::Point2<re::render::World> = mk();
-    let _ = re::math::Lerp::lerp(&a, &b, 0.5);
-}
-
-pub fn p1201() {
-    let a: re::math::point::Point2<()> = mk();
-    let b: re::math::point::Point2<re::render::World> = mk();
-    let _ = a - b;
-}
-
-pub fn p1202() {
-    let a: re::math::point::Point2<()> = mk();
-    let b: re::math::point::Point3<re::render::Model> = mk();
+    let b: re::math::angle::PolarVec = mk();
     let _ = a + b;
 }
 
 pub fn p1203() {
     let a: re::math::point::Point2<()> = mk();
-    let b: re::math::point::Point3<re::render::Model> = mk();
-    let _ = re::math::Lerp::lerp(&a, &b, 0.5);
+    let b: re::math::point::Point2<re::render::Model> = mk();
+    let _ = a + b;
 }
 
 pub fn p1204() {
     let a: re::math::point::Point2<()> = mk();
-    let b: re::math::point::Point3<re::render::Model> = mk();
-    let _ = a - b;
+    let b: re::math::point::Point2<re::render::Model> = mk();
+    let _ = re::math::Lerp::lerp(&a, &b, 0.5);
 }
 
 pub fn p1205() {
     let a: re::math::point::Point2<()> = mk();
-    let b: re::math::point::Point3<()> = mk();
-    let _ = a + b;
+    let b: re::math::point::Point2<re::render::Model> = mk();
+    let _ = a - b;
 }
 
 pub fn p1206() {
     let a: re::math::point::Point2<()> = mk();
-    let b: re::math::point::Point3<()> = mk();
-    let _ = re::math::Lerp::lerp(&a, &b, 0.5);
-}
-
-pub fn p1207() {
-    let a: re::math::point::Point2<()> = mk();
-    let b: re::math::point::Point3<()> = mk();
-    let _ = a - b;
-}
-
-pub fn p1208() {
-    let a: re::math::point::Point2<()> = mk();
-    let b: re::math::point::Point3<re::render::World> = mk();
+    let b: re::math::point::Point2<()> = mk();
     let _ = a + b;
 }
 
 pub fn p1209() {
     let a: re::math::point::Point2<()> = mk();
-    let b: re::math::point::Point3<re::render::World> = mk();
-    let _ = re::math::Lerp::lerp(&a, &b, 0.5);
+    let b: re::math::point::Point2<re::render::World> = mk();
+    let _ = a + b;
 }
 
 pub fn p1210() {
     let a: re::math::point::Point2<()> = mk();
-    let b: re::math::point::Point3<re::render::World> = mk();
-    let _ = a - b;
+    let b: re::math::point::Point2<re::render::World> = mk();
+    let _ = re::math::Lerp::lerp(&a, &b, 0.5);
 }
 
 pub fn p1211() {
     let a: re::math::point::Point2<()> = mk();
-    let b: re::math::vec::Vec2<re::render::Model> = mk();
+    let b: re::math::point::Point2<re::render::World> = mk();
+    let _ = a - b;
+}
+
+pub fn p1212() {
+    let a: re::math::point::Point2<()> = mk();
+    let b: re::math::point::Point3<re::render::Model> = mk();
     let _ = a + b;
 }
 
 pub fn p1213() {
     let a: re::math::point::Point2<()> = mk();
-    let b: re::math::vec::Vec2<re::render::World> = mk();
-    let _ = a + b;
+    let b: re::math::point::Point3<re::render::Model> = mk();
+    let _ = re::math::Lerp::lerp(&a, &b, 0.5);
 }
 
 pub fn p1214() {
     let a: re::math::point::Point2<()> = mk();
-    let b: re::math::vec::Vec3<re::render::Model> = mk();
-    let _ = a + b;
+    let b: re::math::point::Point3<re::render::Model> = mk();
+    let _ = a - b;
 }
 
 pub fn p1215() {
     let a: re::math::point::Point2<()> = mk();
-    let b: re::math::vec::Vec3<()> = mk();
+    let b: re::math::point::Point3<()> = mk();
     let _ = a + b;
 }
 
 pub fn p1216() {
     let a: re::math::point::Point2<()> = mk();
-    let b: re::math::vec::Vec3<re::render::World> = mk();
-    let _ = a + b;
+    let b: re::math::point::Point3<()> = mk();
+    let _ = re::math::Lerp::lerp(&a, &b, 0.5);
 }
 
 pub fn p1217() {
-    let a: re::math::point::Point2<re::render::World> = mk();
-    let b: re::math::point::Point2<re::render::Model> = mk();
-    let _ = a + b;
+    let a: re::math::point::Point2<()> = mk();
+    let b: re::math::point::Point3<()> = mk();
+    let _ = a - b;
 }
 
 pub fn p1218() {
-    let a: re::math::point::Point2<re::render::World> = mk();
-    let b: re::math::point::Point2<re::render::Model> = mk();
-    let _ = re::math::Lerp::lerp(&a, &b, 0.5);
+    let a: re::math::point::Point2<()> = mk();
+    let b: re::math::point::Point3<re::render::World> = mk();
+    let _ = a + b;
 }
 
 pub fn p1219() {
-    let a: re::math::point::Point2<re::render::World> = mk();
-    let b: re::math::point::Point2<re::render::Model> = mk();
-    let _ = a - b;
+    let a: re::math::point::Point2<()> = mk();
+    let b: re::math::point::Point3<re::render::World> = mk();
+    let _ = re::math::Lerp::lerp(&a, &b, 0.5);
 }
 
 pub fn p1220() {
-    let a: re::math::point::Point2<re::render::World> = mk();
-    let b: re::math::point::Point2<()> = mk();
-    let _ = a + b;
+    let a: re::math::point::Point2<()> = mk();
+    let b: re::math::point::Point3<re::render::World> = mk();
+    let _ = a - b;
 }
 
 pub fn p1221() {
-    let a: re::math::point::Point2<re::render::World> = mk();
-    let b: re::math::point::Point2<()> = mk();
-    let _ = re::math::Lerp::lerp(&a, &b, 0.5);
+    let a: re::math::point::Point2<()> = mk();
+    let b: re::math::angle::SphericalVec = mk();
+    let _ = a + b;
 }
 
 pub fn p1222() {
-    let a: re::math::point::Point2<re::render::World> = mk();
-    let b: re::math::point::Point2<()> = mk();
-    let _ = a - b;
+    let a: re::math::point::Point2<()> = mk();
+    let b: re::math::angle::SphericalVec = mk();
+    let _ = a + b.to_cart();
 }
 
 pub fn p1223() {
-    let a: re::math::point::Point2<re::render::World> = mk();
-    let b: re::math::point::Point2<re::render::World> = mk();
-    let _ = a + b;
+    let a: re::math::point::Point2<()> = mk();
+    let b: re::math::angle::SphericalVec = mk();
+    let _ = a + b.into();
 }
 
-pub fn p1226() {
-    let a: re::math::point::Point2<re::render::World> = mk();
-    let b: re::math::point::Point3<re::render::Model> = mk();
-    let _ = a + b;
-}
-
-pub fn p1227() {
-    let a: re::math::point::Point2<re::render::World> = mk();
-    let b: re::math::point::Point3<re::render::Model> = mk();
-    let _ = re::math::Lerp::lerp(&a, &b, 0.5);
-}
-
-pub fn p1228() {
-    let a: re::math::point::Point2<re::render::World> = mk();
-    let b: re::math::point::Point3<re::render::Model> = mk();
-    let _ = a - b;
-}
-
-pub fn p1229() {
-    let a: re::math::point::Point2<re::render::World> = mk();
-    let b: re::math::point::Point3<()> = mk();
-    let _ = a + b;
-}
-
-pub fn p1230() {
-    let a: re::math::point::Point2<re::render::World> = mk();
-    let b: re::math::point::Point3<()> = mk();
-    let _ = re::math::Lerp::lerp(&a, &b, 0.5);
-}
-
-pub fn p1231() {
-    let a: re::math::point::Point2<re::render::World> = mk();
-    let b: re::math::point::Point3<()> = mk();
-    let _ = a - b;
-}
-
-pub fn p1232() {
-    let a: re::math::point::Point2<re::render::World> = mk();
-    let b: re::math::point::Point3<re::render::World> = mk();
-    let _ = a + b;
-}
-
-pub fn p1233() {
-    let a: re::math::point::Point2<re::render::World> = mk();
-    let b: re::math::point::Point3<re::render::World> = mk();
-    let _ = re::math::Lerp::lerp(&a, &b, 0.5);
-}
-
-pub fn p1234() {
-    let a: re::math::point::Point2<re::render::World> = mk();
-    let b: re::math::point::Point3<re::render::World> = mk();
-    let _ = a - b;
-}
-
-pub fn p1235() {
-    let a: re::math::point::Point2<re::render::World> = mk();
+pub fn p1224() {
+    let a: re::math::point::Point2<()> = mk();
     let b: re::math::vec::Vec2<re::render::Model> = mk();
     let _ = a + b;
 }
 
-pub fn p1236() {
-    let a: re::math::point::Point2<re::render::World> = mk();
-    let b: re::math::vec::Vec2<()> = mk();
+pub fn p1226() {
+    let a: re::math::point::Point2<()> = mk();
+    let b: re::math::vec::Vec2<re::render::World> = mk();
     let _ = a + b;
 }
 
-pub fn p1238() {
-    let a: re::math::point::Point2<re::render::World> = mk();
+pub fn p1227() {
+    let a: re::math::point::Point2<()> = mk();
     let b: re::math::vec::Vec3<re::render::Model> = mk();
     let _ = a + b;
 }
 
-pub fn p1239() {
-    let a: re::math::point::Point2<re::render::World> = mk();
+pub fn p1228() {
+    let a: re::math::point::Point2<()> = mk();
     let b: re::math::vec::Vec3<()> = mk();
+    let _ = a + b;
+}
+
+pub fn p1229() {
+    let a: re::math::point::Point2<()> = mk();
+    let b: re::math::vec::Vec3<re::render::World> = mk();
+    let _ = a + b;
+}
+
+pub fn p1230() {
+    let a: re::math::point::Point2<()> = mk();
+    let _ = [a.clone(), a].into_iter().sum::<re::math::point::Point2<()>>();
+}
+
+pub fn p1231() {
+    let a: re::math::point::Point2<re::render::World> = mk();
+    let b: re::math::point::Point2<re::render::Model> = mk();
+    let _ = a + b;
+}
+
+pub fn p1232() {
+    let a: re::math::point::Point2<re::render::World> = mk();
+    let b: re::math::point::Point2<re::render::Model> = mk();
+    let _ = re::math::Lerp::lerp(&a, &b, 0.5);
+}
+
+pub fn p1233() {
+    let a: re::math::point::Point2<re::render::World> = mk();
+    let b: re::math::point::Point2<re::render::Model> = mk();
+    let _ = a - b;
+}
+
+pub fn p1234() {
+    let a: re::math::point::Point2<re::render::World> = mk();
+    let b: re::math::point::Point2<()> = mk();
+    let _ = a + b;
+}
+
+pub fn p1235() {
+    let a: re::math::point::Point2<re::render::World> = mk();
+    let b: re::math::point::Point2<()> = mk();
+    let _ = re::math::Lerp::lerp(&a, &b, 0.5);
+}
+
+pub fn p1236() {
+    let a: re::math::point::Point2<re::render::World> = mk();
+    let b: re::math::point::Point2<()> = mk();
+    let _ = a - b;
+}
+
+pub fn p1237() {
+    let a: re::math::point::Point2<re::render::World> = mk();
+    let b: re::math::point::Point2<re::render::World> = mk();
     let _ = a + b;
 }
 
 pub fn p1240() {
     let a: re::math::point::Point2<re::render::World> = mk();
-    let b: re::math::vec::Vec3<re::render::World> = mk();
+    let b: re::math::point::Point3<re::render::Model> = mk();
     let _ = a + b;
 }
 
 pub fn p1241() {
-    let a: re::math::point::Point3<re::render::Model> = mk();
-    let b: re::math::point::Point2<re::render::Model> = mk();
-    let _ = a + b;
+    let a: re::math::point::Point2<re::render::World> = mk();
+    let b: re::math::point::Point3<re::render::Model> = mk();
+    let _ = re::math::Lerp::lerp(&a, &b, 0.5);
 }
 
 pub fn p1242() {
-    let a: re::math::point::Point3<re::render::Model> = mk();
-    let b: re::math::point::Point2<re::render::Model> = mk();
-    let _ = re::math::Lerp::lerp(&a, &b, 0.5);
+    let a: re::math::point::Point2<re::render::World> = mk();
+    let b: re::math::point::Point3<re::render::Model> = mk();
+    let _ = a - b;
 }
 
 pub fn p1243() {
-    let a: re::math::point::Point3<re::render::Model> = mk();
-    let b: re::math::point::Point2<re::render::Model> = mk();
-    let _ = a - b;
+    let a: re::math::point::Point2<re::render::World> = mk();
+    let b: re::math::point::Point3<()> = mk();
+    let _ = a + b;
 }
 
 pub fn p1244() {
-    let a: re::math::point::Point3<re::render::Model> = mk();
-    let b: re::math::point::Point2<()> = mk();
-    let _ = a + b;
+    let a: re::math::point::Point2<re::render::World> = mk();
+    let b: re::math::point::Point3<()> = mk();
+    let _ = re::math::Lerp::lerp(&a, &b, 0.5);
 }
 
 pub fn p1245() {
-    let a: re::math::point::Point3<re::render::Model> = mk();
-    let b: re::math::point::Point2<()> = mk();
-    let _ = re::math::Lerp::lerp(&a, &b, 0.5);
+    let a: re::math::point::Point2<re::render::World> = mk();
+    let b: re::math::point::Point3<()> = mk();
+    let _ = a - b;
 }
 
 pub fn p1246() {
-    let a: re::math::point::Point3<re::render::Model> = mk();
-    let b: re::math::point::Point2<()> = mk();
-    let _ = a - b;
+    let a: re::math::point::Point2<re::render::World> = mk();
+    let b: re::math::point::Point3<re::render::World> = mk();
+    let _ = a + b;
 }
 
 pub fn p1247() {
-    let a: re::math::point::Point3<re::render::Model> = mk();
-    let b: re::math::point::Point2<re::render::World> = mk();
-    let _ = a + b;
+    let a: re::math::point::Point2<re::render::World> = mk();
+    let b: re::math::point::Point3<re::render::World> = mk();
+    let _ = re::math::Lerp::lerp(&a, &b, 0.5);
 }
 
 pub fn p1248() {
-    let a: re::math::point::Point3<re::render::Model> = mk();
-    let b: re::math::point::Point2<re::render::World> = mk();
-    let _ = re::math::Lerp::lerp(&a, &b, 0.5);
+    let a: re::math::point::Point2<re::render::World> = mk();
+    let b: re::math::point::Point3<re::render::World> = mk();
+    let _ = a - b;
 }
 
 pub fn p1249() {
-    let a: re::math::point::Point3<re::render::Model> = mk();
-    let b: re::math::point::Point2<re::render::World> = mk();
-    let _ = a - b;
-}
-
-pub fn p1250() {
-    let a: re::math::point::Point3<re::render::Model> = mk();
-    let b: re::math::point::Point3<re::render::Model> = mk();
-    let _r: re::math::point::Point3<re::render::Model> = a - b;
-}
-
-pub fn p1252() {
-    let a: re::math::point::Point3<re::render::Model> = mk();
-    let b: re::math::point::Point3<re::render::Model> = mk();
-    let _r: re::math::point::Point3<()> = a - b;
-}
-
-pub fn p1253() {
-    let a: re::math::point::Point3<re::render::Model> = mk();
-    let b: re::math::point::Point3<re::render::Model> = mk();
-    let c: re::math::point::Point3<()> = mk();
-    let d = re::math::space::Affine::sub(&a, &b);
-    let _ = re::math::space::Affine::add(&c, &d);
-}
-
-pub fn p1254() {
-    let a: re::math::point::Point3<re::render::Model> = mk();
-    let b: re::math::point::Point3<re::render::Model> = mk();
-    let _r: re::math::point::Point3<re::render::World> = a - b;
-}
-
-pub fn p1255() {
-    let a: re::math::point::Point3<re::render::Model> = mk();
-    let b: re::math::point::Point3<re::render::Model> = mk();
-    let c: re::math::point::Point3<re::render::World> = mk();
-    let d = re::math::space::Affine::sub(&a, &b);
-    let _ = re::math::space::Affine::add(&c, &d);
-}
-
-pub fn p1257() {
-    let a: re::math::point::Point3<re::render::Model> = mk();
-    let b: re::math::point::Point3<re::render::Model> = mk();
-    let _r: re::math::vec::Vec3<()> = a - b;
-}
-
-pub fn p1258() {
-    let a: re::math::point::Point3<re::render::Model> = mk();
-    let b: re::math::point::Point3<re::render::Model> = mk();
-    let _r: re::math::vec::Vec3<re::render::World> = a - b;
-}
-
-pub fn p1259() {
-    let a: re::math::point::Point3<re::render::Model> = mk();
-    let b: re::math::point::Point3<re::render::Model> = mk();
-    let _ = a + b;
-}
-
-pub fn p1262() {
-    let a: re::math::point::Point3<re::render::Model> = mk();
-    let b: re::math::point::Point3<()> = mk();
-    let _r: re::math::point::Point3<re::render::Model> = a - b;
-}
-
-pub fn p1263() {
-    let a: re::math::point::Point3<re::render::Model> = mk();
-    let b: re::math::point::Point3<()> = mk();
-    let c: re::math::point::Point3<re::render::Model> = mk();
-    let d = re::math::space::Affine::sub(&a, &b);
-    let _ = re::math::space::Affine::add(&c, &d);
-}
-
-pub fn p1264() {
-    let a: re::math::point::Point3<re::render::Model> = mk();
-    let b: re::math::point::Point3<()> = mk();
-    let _r: re::math::point::Point3<()> = a - b;
-}
-
-pub fn p1265() {
-    let a: re::math::point::Point3<re::render::Model> = mk();
-    let b: re::math::point::Point3<()> = mk();
-    let c: re::math::point::Point3<()> = mk();
-    let d = re::math::space::Affine::sub(&a, &b);
-    let _ = re::math::space::Affine::add(&c, &d);
-}
-
-pub fn p1266() {
-    let a: re::math::point::Point3<re::render::Model> = mk();
-    let b: re::math::point::Point3<()> = mk();
-    let _r: re::math::point::Point3<re::render::World> = a - b;
-}
-
-pub fn p1267() {
-    let a: re::math::point::Point3<re::render::Model> = mk();
-    let b: re::math::point::Point3<()> = mk();
-    let c: re::math::point::Point3<re::render::World> = mk();
-    let d = re::math::space::Affine::sub(&a, &b);
-    let _ = re::math::space::Affine::add(&c, &d);
-}
-
-pub fn p1268() {
-    let a: re::math::point::Point3<re::render::Model> = mk();
-    let b: re::math::point::Point3<()> = mk();
-    let _r: re::math::vec::Vec3<re::render::Model> = a - b;
-}
-
-pub fn p1269() {
-    let a: re::math::point::Point3<re::render::Model> = mk();
-    let b: re::math::point::Point3<()> = mk();
-    let _r: re::math::vec::Vec3<()> = a - b;
-}
-
-pub fn p1270() {
-    let a: re::math::point::Point3<re::render::Model> = mk();
-    let b: re::math::point::Point3<()> = mk();
-    let _r: re::math::vec::Vec3<re::render::World> = a - b;
-}
-
-pub fn p1271() {
-    let a: re::math::point::Point3<re::render::Model> = mk();
-    let b: re::math::point::Point3<()> = mk();
-    let _ = a + b;
-}
-
-pub fn p1272() {
-    let a: re::math::point::Point3<re::render::Model> = mk();
-    let b: re::math::point::Point3<()> = mk();
-    let _ = re::math::Lerp::lerp(&a, &b, 0.5);
-}
-
-pub fn p1273() {
-    let a: re::math::point::Point3<re::render::Model> = mk();
-    let b: re::math::point::Point3<()> = mk();
-    let _ = a - b;
-}
-
-pub fn p1274() {
-    let a: re::math::point::Point3<re::render::Model> = mk();
-    let b: re::math::point::Point3<re::render::World> = mk();
-    let _r: re::math::point::Point3<re::render::Model> = a - b;
-}
-
-pub fn p1275() {
-    let a: re::math::point::Point3<re::render::Model> = mk();
-    let b: re::math::point::Point3<re::render::World> = mk();
-    let c: re::math::point::Point3<re::render::Model> = mk();
-    let d = re::math::space::Affine::sub(&a, &b);
-    let _ = re::math::space::Affine::add(&c, &d);
-}
-
-pub fn p1276() {
-    let a: re::math::point::Point3<re::render::Model> = mk();
-    let b: re::math::point::Point3<re::render::World> = mk();
-    let _r: re::math::point::Point3<()> = a - b;
-}
-
-pub fn p1277() {
-    let a: re::math::point::Point3<re::render::Model> = mk();
-    let b: re::math::point::Point3<re::render::World> = mk();
-    let c: re::math::point::Point3<()> = mk();
-    let d = re::math::space::Affine::sub(&a, &b);
-    let _ = re::math::space::Affine::add(&c, &d);
-}
-
-pub fn p1278() {
-    let a: re::math::point::Point3<re::render::Model> = mk();
-    let b: re::math::point::Point3<re::render::World> = mk();
-    let _r: re::math::point::Point3<re::render::World> = a - b;
-}
-
-pub fn p1279() {
-    let a: re::math::point::Point3<re::render::Model> = mk();
-    let b: re::math::point::Point3<re::render::World> = mk();
-    let c: re::math::point::Point3<re::render::World> = mk();
-    let d = re::math::space::Affine::sub(&a, &b);
-    let _ = re::math::space::Affine::add(&c, &d);
-}
-
-pub fn p1280() {
-    let a: re::math::point::Point3<re::render::Model> = mk();
-    let b: re::math::point::Point3<re::render::World> = mk();
-    let _r: re::math::vec::Vec3<re::render::Model> = a - b;
-}
-
-pub fn p1281() {
-    let a: re::math::point::Point3<re::render::Model> = mk();
-    let b: re::math::point::Point3<re::render::World> = mk();
-    let _r: re::math::vec::Vec3<()> = a - b;
-}
-
-pub fn p1282() {
-    let a: re::math::point::Point3<re::render::Model> = mk();
-    let b: re::math::point::Point3<re::render::World> = mk();
-    let _r: re::math::vec::Vec3<re::render::World> = a - b;
-}
-
-pub fn p1283() {
-    let a: re::math::point::Point3<re::render::Model> = mk();
-    let b: re::math::point::Point3<re::render::World> = mk();
-    let _ = a + b;
-}
-
-pub fn p1284() {
-    let a: re::math::point::Point3<re::render::Model> = mk();
-    let b: re::math::point::Point3<re::render::World> = mk();
-    let _ = re::math::Lerp::lerp(&a, &b, 0.5);
-}
-
-pub fn p1285() {
-    let a: re::math::point::Point3<re::render::Model> = mk();
-    let b: re::math::point::Point3<re::render::World> = mk();
-    let _ = a - b;
-}
-
-pub fn p1286() {
-    let a: re::math::point::Point3<re::render::Model> = mk();
+    let a: re::math::point::Point2<re::render::World> = mk();
     let b: re::math::vec::Vec2<re::render::Model> = mk();
     let _ = a + b;
 }
 
-pub fn p1287() {
-    let a: re::math::point::Point3<re::render::Model> = mk();
+pub fn p1250() {
+    let a: re::math::point::Point2<re::render::World> = mk();
     let b: re::math::vec::Vec2<()> = mk();
     let _ = a + b;
 }
 
+pub fn p1252() {
+    let a: re::math::point::Point2<re::render::World> = mk();
+    let b: re::math::vec::Vec3<re::render::Model> = mk();
+    let _ = a + b;
+}
+
+pub fn p1253() {
+    let a: re::math::point::Point2<re::render::World> = mk();
+    let b: re::math::vec::Vec3<()> = mk();
+    let _ = a + b;
+}
+
+pub fn p1254() {
+    let a: re::math::point::Point2<re::render::World> = mk();
+    let b: re::math::vec::Vec3<re::render::World> = mk();
+    let _ = a + b;
+}
+
+pub fn p1255() {
+    let a: re::math::point::Point2<re::render::World> = mk();
+    let _ = [a.clone(), a].into_iter().sum::<re::math::point::Point2<re::render::World>>();
+}
+
+pub fn p1256() {
+    let a: re::math::point::Point3<re::render::Model> = mk();
+    let b: re::math::angle::PolarVec = mk();
+    let _ = a + b;
+}
+
+pub fn p1257() {
+    let a: re::math::point::Point3<re::render::Model> = mk();
+    let b: re::math::angle::PolarVec = mk();
+    let _ = a + b.to_cart();
+}
+
+pub fn p1258() {
+    let a: re::math::point::Point3<re::render::Model> = mk();
+    let b: re::math::angle::PolarVec = mk();
+    let _ = a + b.into();
+}
+
+pub fn p1259() {
+    let a: re::math::point::Point3<re::render::Model> = mk();
+    let b: re::math::point::Point2<re::render::Model> = mk();
+    let _ = a + b;
+}
+
+pub fn p1260() {
+    let a: re::math::point::Point3<re::render::Model> = mk();
+    let b: re::math::point::Point2<re::render::Model> = mk();
+    let _ = re::math::Lerp::lerp(&a, &b, 0.5);
+}
+
+pub fn p1261() {
+    let a: re::math::point::Point3<re::render::Model> = mk();
+    let b: re::math::point::Point2<re::render::Model> = mk();
+    let _ = a - b;
+}
+
+pub fn p1262() {
+    let a: re::math::point::Point3<re::render::Model> = mk();
+    let b: re::math::point::Point2<()> = mk();
+    let _ = a + b;
+}
+
+pub fn p1263() {
+    let a: re::math::point::Point3<re::render::Model> = mk();
+    let b: re::math::point::Point2<()> = mk();
+    let _ = re::math::Lerp::lerp(&a, &b, 0.5);
+}
+
+pub fn p1264() {
+    let a: re::math::point::Point3<re::render::Model> = mk();
+    let b: re::math::point::Point2<()> = mk();
+    let _ = a - b;
+}
+
+pub fn p1265() {
+    let a: re::math::point::Point3<re::render::Model> = mk();
+    let b: re::math::point::Point2<re::render::World> = mk();
+    let _ = a + b;
+}
+
+pub fn p1266() {
+    let a: re::math::point::Point3<re::render::Model> = mk();
+    let b: re::math::point::Point2<re::render::World> = mk();
+    let _ = re::math::Lerp::lerp(&a, &b, 0.5);
+}
+
+pub fn p1267() {
+    let a: re::math::point::Point3<re::render::Model> = mk();
+    let b: re::math::point::Point2<re::render::World> = mk();
+    let _ = a - b;
+}
+
+pub fn p1268() {
+    let a: re::math::point::Point3<re::render::Model> = mk();
+    let b: re::math::point::Point3<re::render::Model> = mk();
+    let _r: re::math::point::Point3<re::render::Model> = a - b;
+}
+
+pub fn p1270() {
+    let a: re::math::point::Point3<re::render::Model> = mk();
+    let b: re::math::point::Point3<re::render::Model> = mk();
+    let _r: re::math::point::Point3<()> = a - b;
+}
+
+pub fn p1271() {
+    let a: re::math::point::Point3<re::render::Model> = mk();
+    let b: re::math::point::Point3<re::render::Model> = mk();
+    let c: re::math::point::Point3<()> = mk();
+    let d = re::math::space::Affine::sub(&a, &b);
+    let _ = re::math::space::Affine::add(&c, &d);
+}
+
+pub fn p1272() {
+    let a: re::math::point::Point3<re::render::Model> = mk();
+    let b: re::math::point::Point3<re::render::Model> = mk();
+    let _r: re::math::point::Point3<re::render::World> = a - b;
+}
+
+pub fn p1273() {
+    let a: re::math::point::Point3<re::render::Model> = mk();
+    let b: re::math::point::Point3<re::render::Model> = mk();
+    let c: re::math::point::Point3<re::render::World> = mk();
+    let d = re::math::space::Affine::sub(&a, &b);
+    let _ = re::math::space::Affine::add(&c, &d);
+}
+
+pub fn p1275() {
+    let a: re::math::point::Point3<re::render::Model> = mk();
+    let b: re::math::point::Point3<re::render::Model> = mk();
+    let _r: re::math::vec::Vec3<()> = a - b;
+}
+
+pub fn p1276() {
+    let a: re::math::point::Point3<re::render::Model> = mk();
+    let b: re::math::point::Point3<re::render::Model> = mk();
+    let _r: re::math::vec::Vec3<re::render::World> = a - b;
+}
+
+pub fn p1277() {
+    let a: re::math::point::Point3<re::render::Model> = mk();
+    let b: re::math::point::Point3<re::render::Model> = mk();
+    let _ = a + b;
+}
+
+pub fn p1280() {
+    let a: re::math::point::Point3<re::render::Model> = mk();
+    let b: re::math::point::Point3<()> = mk();
+    let _r: re::math::point::Point3<re::render::Model> = a - b;
+}
+
+pub fn p1281() {
+    let a: re::math::point::Point3<re::render::Model> = mk();
+    let b: re::math::point::Point3<()> = mk();
+    let c: re::math::point::Point3<re::render::Model> = mk();
+    let d = re::math::space::Affine::sub(&a, &b);
+    let _ = re::math::space::Affine::add(&c, &d);
+}
+
+pub fn p1282() {
+    let a: re::math::point::Point3<re::render::Model> = mk();
+    let b: re::math::point::Point3<()> = mk();
+    let _r: re::math::point::Point3<()> = a - b;
+}
+
+pub fn p1283() {
+    let a: re::math::point::Point3<re::render::Model> = mk();
+    let b: re::math::point::Point3<()> = mk();
+    let c: re::math::point::Point3<()> = mk();
+    let d = re::math::space::Affine::sub(&a, &b);
+    let _ = re::math::space::Affine::add(&c, &d);
+}
+
+pub fn p1284() {
+    let a: re::math::point::Point3<re::render::Model> = mk();
+    let b: re::math::point::Point3<()> = mk();
+    let _r: re::math::point::Point3<re::render::World> = a - b;
+}
+
+pub fn p1285() {
+    let a: re::math::point::Point3<re::render::Model> = mk();
+    let b: re::math::point::Point3<()> = mk();
+    let c: re::math::point::Point3<re::render::World> = mk();
+    let d = re::math::space::Affine::sub(&a, &b);
+    let _ = re::math::space::Affine::add(&c, &d);
+}
+
+pub fn p1286() {
+    let a: re::math::point::Point3<re::render::Model> = mk();
+    let b: re::math::point::Point3<()> = mk();
+    let _r: re::math::vec::Vec3<re::render::Model> = a - b;
+}
+
+pub fn p1287() {
+    let a: re::math::point::Point3<re::render::Model> = mk();
+    let b: re::math::point::Point3<()> = mk();
+    let _r: re::math::vec::Vec3<()> = a - b;
+}
+
 pub fn p1288() {
     let a: re::math::point::Point3<re::render::Model> = mk();
-    let b: re::math::vec::Vec2<re::render::World> = mk();
+    let b: re::math::point::Point3<()> = mk();
+    let _r: re::math::vec::Vec3<re::render::World> = a - b;
+}
+
+pub fn p1289() {
+    let a: re::math::point::Point3<re::render::Model> = mk();
+    let b: re::math::point::Point3<()> = mk();
     let _ = a + b;
 }
 
 pub fn p1290() {
     let a: re::math::point::Point3<re::render::Model> = mk();
+    let b: re::math::point::Point3<()> = mk();
+    let _ = re::math::Lerp::lerp(&a, &b, 0.5);
+}
+
+pub fn p1291() {
+    let a: re::math::point::Point3<re::render::Model> = mk();
+    let b: re::math::point::Point3<()> = mk();
+    let _ = a - b;
+}
+
+pub fn p1292() {
+    let a: re::math::point::Point3<re::render::Model> = mk();
+    let b: re::math::point::Point3<re::render::World> = mk();
+    let _r: re::math::point::Point3<re::render::Model> = a - b;
+}
+
+pub fn p1293() {
+    let a: re::math::point::Point3<re::render::Model> = mk();
+    let b: re::math::point::Point3<re::render::World> = mk();
+    let c: re::math::point::Point3<re::render::Model> = mk();
+    let d = re::math::space::Affine::sub(&a, &b);
+    let _ = re::math::space::Affine::add(&c, &d);
+}
+
+pub fn p1294() {
+    let a: re::math::point::Point3<re::render::Model> = mk();
+    let b: re::math::point::Point3<re::render::World> = mk();
+    let _r: re::math::point::Point3<()> = a - b;
+}
+
+pub fn p1295() {
+    let a: re::math::point::Point3<re::render::Model> = mk();
+    let b: re::math::point::Point3<re::render::World> = mk();
+    let c: re::math::point::Point3<()> = mk();
+    let d = re::math::space::Affine::sub(&a, &b);
+    let _ = re::math::space::Affine::add(&c, &d);
+}
+
+pub fn p1296() {
+    let a: re::math::point::Point3<re::render::Model> = mk();
+    let b: re::math::point::Point3<re::render::World> = mk();
+    let _r: re::math::point::Point3<re::render::World> = a - b;
+}
+
+pub fn p1297() {
+    let a: re::math::point::Point3<re::render::Model> = mk();
+    let b: re::math::point::Point3<re::render::World> = mk();
+    let c: re::math::point::Point3<re::render::World> = mk();
+    let d = re::math::space::Affine::sub(&a, &b);
+    let _ = re::math::space::Affine::add(&c, &d);
+}
+
+pub fn p1298() {
+    let a: re::math::point::Point3<re::render::Model> = mk();
+    let b: re::math::point::Point3<re::render::World> = mk();
+    let _r: re::math::vec::Vec3<re::render::Model> = a - b;
+}
+
+pub fn p1299() {
+    let a: re::math::point::Point3<re::render::Model> = mk();
+    let b: re::math::point::Point3<re::render::World> = mk();
+    let _r: re::math::vec::Vec3<()> = a - b;
+}
+
+pub fn p1300() {
+    let a: re::math::point::Point3<re::render::Model> = mk();
+    let b: re::math::point::Point3<re::render::World> = mk();
+    let _r: re::math::vec::Vec3<re::render::World> = a - b;
+}
+
+pub fn p1301() {
+    let a: re::math::point::Point3<re::render::Model> = mk();
+    let b: re::math::point::Point3<re::render::World> = mk();
+    let _ = a + b;
+}
+
+pub fn p1302() {
+    let a: re::math::point::Point3<re::render::Model> = mk();
+    let b: re::math::point::Point3<re::render::World> = mk();
+    let _ = re::math::Lerp::lerp(&a, &b, 0.5);
+}
+
+pub fn p1303() {
+    let a: re::math::point::Point3<re::render::Model> = mk();
+    let b: re::math::point::Point3<re::render::World> = mk();
+    let _ = a - b;
+}
+
+pub fn p1304() {
+    let a: re::math::point::Point3<re::render::Model> = mk();
+    let b: re::math::angle::SphericalVec = mk();
+    let _ = a + b;
+}
+
+pub fn p1305() {
+    let a: re::math::point::Point3<re::render::Model> = mk();
+    let b: re::math::angle::SphericalVec = mk();
+    let _ = a + b.to_cart();
+}
+
+pub fn p1306() {
+    let a: re::math::point::Point3<re::render::Model> = mk();
+    let b: re::math::angle::SphericalVec = mk();
+    let _ = a + b.into();
+}
+
+pub fn p1307() {
+    let a: re::math::point::Point3<re::render::Model> = mk();
+    let b: re::math::vec::Vec2<re::render::Model> = mk();
+    let _ = a + b;
+}
+
+pub fn p1308() {
+    let a: re::math::point::Point3<re::render::Model> = mk();
+    let b: re::math::vec::Vec2<()> = mk();
+    let _ = a + b;
+}
+
+pub fn p1309() {
+    let a: re::math::point::Point3<re::render::Model> = mk();
+    let b: re::math::vec::Vec2<re::render::World> = mk();
+    let _ = a + b;
+}
+
+pub fn p1311() {
+    let a: re::math::point::Point3<re::render::Model> = mk();
     let b: re::math::vec::Vec3<()> = mk();
     let _ = a + b;
 }
 
-pub fn p1291() {
+pub fn p1312() {
     let a: re::math::point::Point3<re::render::Model> = mk();
     let b: re::math::vec::Vec3<re::render::World> = mk();
     let _ = a + b;
 }
 
-pub fn p1292() {
+pub fn p1313() {
+    let a: re::math::point::Point3<re::render::Model> = mk();
+    let _ = [a.clone(), a].into_iter().sum::<re::math::point::Point3<re::render::Model>>();
+}
+
+pub fn p1314() {
     use re::geom::{Tri, Vertex};
     let vs = |_: Vertex<re::math::point::Point3<re::render::Model>, ()>, _: ()| -> Vertex<re::math::point::Point3<re::render::Model>, f32> { mk() };
     let fs = |_: re::render::raster::Frag<f32>| -> Option<re::math::color::Color4> { mk() };
@@ -6112,1215 +6228,1345 @@ pub fn p1292() {
     re::render::render(&tris, &verts, &sh, (), mk(), &mut target, &mk::<re::render::Context>());
 }
 
-pub fn p1293() {
-    let a: re::math::point::Point3<()> = mk();
-    let b: re::math::point::Point2<re::render::Model> = mk();
-    let _ = a + b;
-}
-
-pub fn p1294() {
-    let a: re::math::point::Point3<()> = mk();
-    let b: re::math::point::Point2<re::render::Model> = mk();
-    let _ = re::math::Lerp::lerp(&a, &b, 0.5);
-}
-
-pub fn p1295() {
-    let a: re::math::point::Point3<()> = mk();
-    let b: re::math::point::Point2<re::render::Model> = mk();
-    let _ = a - b;
-}
-
-pub fn p1296() {
-    let a: re::math::point::Point3<()> = mk();
-    let b: re::math::point::Point2<()> = mk();
-    let _ = a + b;
-}
-
-pub fn p1297() {
-    let a: re::math::point::Point3<()> = mk();
-    let b: re::math::point::Point2<()> = mk();
-    let _ = re::math::Lerp::lerp(&a, &b, 0.5);
-}
-
-pub fn p1298() {
-    let a: re::math::point::Point3<()> = mk();
-    let b: re::math::point::Point2<()> = mk();
-    let _ = a - b;
-}
-
-pub fn p1299() {
-    let a: re::math::point::Point3<()> = mk();
-    let b: re::math::point::Point2<re::render::World> = mk();
-    let _ = a + b;
-}
-
-pub fn p1300() {
-    let a: re::math::point::Point3<()> = mk();
-    let b: re::math::point::Point2<re::render::World> = mk();
-    let _ = re::math::Lerp::lerp(&a, &b, 0.5);
-}
-
-pub fn p1301() {
-    let a: re::math::point::Point3<()> = mk();
-    let b: re::math::point::Point2<re::render::World> = mk();
-    let _ = a - b;
-}
-
-pub fn p1302() {
-    let a: re::math::point::Point3<()> = mk();
-    let b: re::math::point::Point3<re::render::Model> = mk();
-    let _r: re::math::point::Point3<re::render::Model> = a - b;
-}
-
-pub fn p1303() {
-    let a: re::math::point::Point3<()> = mk();
-    let b: re::math::point::Point3<re::render::Model> = mk();
-    let c: re::math::point::Point3<re::render::Model> = mk();
-    let d = re::math::space::Affine::sub(&a, &b);
-    let _ = re::math::space::Affine::add(&c, &d);
-}
-
-pub fn p1304() {
-    let a: re::math::point::Point3<()> = mk();
-    let b: re::math::point::Point3<re::render::Model> = mk();
-    let _r: re::math::point::Point3<()> = a - b;
-}
-
-pub fn p1305() {
-    let a: re::math::point::Point3<()> = mk();
-    let b: re::math::point::Point3<re::render::Model> = mk();
-    let c: re::math::point::Point3<()> = mk();
-    let d = re::math::space::Affine::sub(&a, &b);
-    let _ = re::math::space::Affine::add(&c, &d);
-}
-
-pub fn p1306() {
-    let a: re::math::point::Point3<()> = mk();
-    let b: re::math::point::Point3<re::render::Model> = mk();
-    let _r: re::math::point::Point3<re::render::World> = a - b;
-}
-
-pub fn p1307() {
-    let a: re::math::point::Point3<()> = mk();
-    let b: re::math::point::Point3<re::render::Model> = mk();
-    let c: re::math::point::Point3<re::render::World> = mk();
-    let d = re::math::space::Affine::sub(&a, &b);
-    let _ = re::math::space::Affine::add(&c, &d);
-}
-
-pub fn p1308() {
-    let a: re::math::point::Point3<()> = mk();
-    let b: re::math::point::Point3<re::render::Model> = mk();
-    let _r: re::math::vec::Vec3<re::render::Model> = a - b;
-}
-
-pub fn p1309() {
-    let a: re::math::point::Point3<()> = mk();
-    let b: re::math::point::Point3<re::render::Model> = mk();
-    let _r: re::math::vec::Vec3<()> = a - b;
-}
-
-pub fn p1310() {
-    let a: re::math::point::Point3<()> = mk();
-    let b: re::math::point::Point3<re::render::Model> = mk();
-    let _r: re::math::vec::Vec3<re::render::World> = a - b;
-}
-
-pub fn p1311() {
-    let a: re::math::point::Point3<()> = mk();
-    let b: re::math::point::Point3<re::render::Model> = mk();
-    let _ = a + b;
-}
-
-pub fn p1312() {
-    let a: re::math::point::Point3<()> = mk();
-    let b: re::math::point::Point3<re::render::Model> = mk();
-    let _ = re::math::Lerp::lerp(&a, &b, 0.5);
-}
-
-pub fn p1313() {
-    let a: re::math::point::Point3<()> = mk();
-    let b: re::math::point::Point3<re::render::Model> = mk();
-    let _ = a - b;
-}
-
-pub fn p1314() {
-    let a: re::math::point::Point3<()> = mk();
-    let b: re::math::point::Point3<()> = mk();
-    let _r: re::math::point::Point3<re::render::Model> = a - b;
-}
-
 pub fn p1315() {
     let a: re::math::point::Point3<()> = mk();
-    let b: re::math::point::Point3<()> = mk();
-    let c: re::math::point::Point3<re::render::Model> = mk();
-    let d = re::math::space::Affine::sub(&a, &b);
-    let _ = re::math::space::Affine::add(&c, &d);
+    let b: re::math::angle::PolarVec = mk();
+    let _ = a + b;
 }
 
 pub fn p1316() {
     let a: re::math::point::Point3<()> = mk();
-    let b: re::math::point::Point3<()> = mk();
-    let _r: re::math::point::Point3<()> = a - b;
+    let b: re::math::angle::PolarVec = mk();
+    let _ = a + b.to_cart();
+}
+
+pub fn p1317() {
+    let a: re::math::point::Point3<()> = mk();
+    let b: re::math::angle::PolarVec = mk();
+    let _ = a + b.into();
 }
 
 pub fn p1318() {
     let a: re::math::point::Point3<()> = mk();
-    let b: re::math::point::Point3<()> = mk();
-    let _r: re::math::point::Point3<re::render::World> = a - b;
+    let b: re::math::point::Point2<re::render::Model> = mk();
+    let _ = a + b;
 }
 
 pub fn p1319() {
     let a: re::math::point::Point3<()> = mk();
-    let b: re::math::point::Point3<()> = mk();
-    let c: re::math::point::Point3<re::render::World> = mk();
-    let d = re::math::space::Affine::sub(&a, &b);
-    let _ = re::math::space::Affine::add(&c, &d);
+    let b: re::math::point::Point2<re::render::Model> = mk();
+    let _ = re::math::Lerp::lerp(&a, &b, 0.5);
 }
 
 pub fn p1320() {
     let a: re::math::point::Point3<()> = mk();
-    let b: re::math::point::Point3<()> = mk();
-    let _r: re::math::vec::Vec3<re::render::Model> = a - b;
+    let b: re::math::point::Point2<re::render::Model> = mk();
+    let _ = a - b;
+}
+
+pub fn p1321() {
+    let a: re::math::point::Point3<()> = mk();
+    let b: re::math::point::Point2<()> = mk();
+    let _ = a + b;
 }
 
 pub fn p1322() {
     let a: re::math::point::Point3<()> = mk();
-    let b: re::math::point::Point3<()> = mk();
-    let _r: re::math::vec::Vec3<re::render::World> = a - b;
+    let b: re::math::point::Point2<()> = mk();
+    let _ = re::math::Lerp::lerp(&a, &b, 0.5);
 }
 
 pub fn p1323() {
     let a: re::math::point::Point3<()> = mk();
-    let b: re::math::point::Point3<()> = mk();
+    let b: re::math::point::Point2<()> = mk();
+    let _ = a - b;
+}
+
+pub fn p1324() {
+    let a: re::math::point::Point3<()> = mk();
+    let b: re::math::point::Point2<re::render::World> = mk();
     let _ = a + b;
+}
+
+pub fn p1325() {
+    let a: re::math::point::Point3<()> = mk();
+    let b: re::math::point::Point2<re::render::World> = mk();
+    let _ = re::math::Lerp::lerp(&a, &b, 0.5);
 }
 
 pub fn p1326() {
     let a: re::math::point::Point3<()> = mk();
-    let b: re::math::point::Point3<re::render::World> = mk();
-    let _r: re::math::point::Point3<re::render::Model> = a - b;
+    let b: re::math::point::Point2<re::render::World> = mk();
+    let _ = a - b;
 }
 
 pub fn p1327() {
     let a: re::math::point::Point3<()> = mk();
-    let b: re::math::point::Point3<re::render::World> = mk();
+    let b: re::math::point::Point3<re::render::Model> = mk();
+    let _r: re::math::point::Point3<re::render::Model> = a - b;
+}
+
+pub fn p1328() {
+    let a: re::math::point::Point3<()> = mk();
+    let b: re::math::point::Point3<re::render::Model> = mk();
     let c: re::math::point::Point3<re::render::Model> = mk();
     let d = re::math::space::Affine::sub(&a, &b);
     let _ = re::math::space::Affine::add(&c, &d);
 }
 
-pub fn p1328() {
+pub fn p1329() {
     let a: re::math::point::Point3<()> = mk();
-    let b: re::math::point::Point3<re::render::World> = mk();
+    let b: re::math::point::Point3<re::render::Model> = mk();
     let _r: re::math::point::Point3<()> = a - b;
 }
 
-pub fn p1329() {
+pub fn p1330() {
     let a: re::math::point::Point3<()> = mk();
-    let b: re::math::point::Point3<re::render::World> = mk();
+    let b: re::math::point::Point3<re::render::Model> = mk();
     let c: re::math::point::Point3<()> = mk();
     let d = re::math::space::Affine::sub(&a, &b);
     let _ = re::math::space::Affine::add(&c, &d);
 }
 
-pub fn p1330() {
+pub fn p1331() {
     let a: re::math::point::Point3<()> = mk();
-    let b: re::math::point::Point3<re::render::World> = mk();
+    let b: re::math::point::Point3<re::render::Model> = mk();
     let _r: re::math::point::Point3<re::render::World> = a - b;
 }
 
-pub fn p1331() {
+pub fn p1332() {
     let a: re::math::point::Point3<()> = mk();
-    let b: re::math::point::Point3<re::render::World> = mk();
+    let b: re::math::point::Point3<re::render::Model> = mk();
     let c: re::math::point::Point3<re::render::World> = mk();
     let d = re::math::space::Affine::sub(&a, &b);
     let _ = re::math::space::Affine::add(&c, &d);
 }
 
-pub fn p1332() {
-    let a: re::math::point::Point3<()> = mk();
-    let b: re::math::point::Point3<re::render::World> = mk();
-    let _r: re::math::vec::Vec3<re::render::Model> = a - b;
-}
-
 pub fn p1333() {
     let a: re::math::point::Point3<()> = mk();
-    let b: re::math::point::Point3<re::render::World> = mk();
-    let _r: re::math::vec::Vec3<()> = a - b;
+    let b: re::math::point::Point3<re::render::Model> = mk();
+    let _r: re::math::vec::Vec3<re::render::Model> = a - b;
 }
 
 pub fn p1334() {
     let a: re::math::point::Point3<()> = mk();
-    let b: re::math::point::Point3<re::render::World> = mk();
-    let _r: re::math::vec::Vec3<re::render::World> = a - b;
+    let b: re::math::point::Point3<re::render::Model> = mk();
+    let _r: re::math::vec::Vec3<()> = a - b;
 }
 
 pub fn p1335() {
     let a: re::math::point::Point3<()> = mk();
-    let b: re::math::point::Point3<re::render::World> = mk();
-    let _ = a + b;
+    let b: re::math::point::Point3<re::render::Model> = mk();
+    let _r: re::math::vec::Vec3<re::render::World> = a - b;
 }
 
 pub fn p1336() {
     let a: re::math::point::Point3<()> = mk();
-    let b: re::math::point::Point3<re::render::World> = mk();
-    let _ = re::math::Lerp::lerp(&a, &b, 0.5);
+    let b: re::math::point::Point3<re::render::Model> = mk();
+    let _ = a + b;
 }
 
 pub fn p1337() {
     let a: re::math::point::Point3<()> = mk();
-    let b: re::math::point::Point3<re::render::World> = mk();
-    let _ = a - b;
+    let b: re::math::point::Point3<re::render::Model> = mk();
+    let _ = re::math::Lerp::lerp(&a, &b, 0.5);
 }
 
 pub fn p1338() {
     let a: re::math::point::Point3<()> = mk();
-    let b: re::math::vec::Vec2<re::render::Model> = mk();
-    let _ = a + b;
+    let b: re::math::point::Point3<re::render::Model> = mk();
+    let _ = a - b;
 }
 
 pub fn p1339() {
     let a: re::math::point::Point3<()> = mk();
-    let b: re::math::vec::Vec2<()> = mk();
-    let _ = a + b;
+    let b: re::math::point::Point3<()> = mk();
+    let _r: re::math::point::Point3<re::render::Model> = a - b;
 }
 
 pub fn p1340() {
     let a: re::math::point::Point3<()> = mk();
-    let b: re::math::vec::Vec2<re::render::World> = mk();
-    let _ = a + b;
+    let b: re::math::point::Point3<()> = mk();
+    let c: re::math::point::Point3<re::render::Model> = mk();
+    let d = re::math::space::Affine::sub(&a, &b);
+    let _ = re::math::space::Affine::add(&c, &d);
 }
 
 pub fn p1341() {
     let a: re::math::point::Point3<()> = mk();
-    let b: re::math::vec::Vec3<re::render::Model> = mk();
-    let _ = a + b;
+    let b: re::math::point::Point3<()> = mk();
+    let _r: re::math::point::Point3<()> = a - b;
 }
 
 pub fn p1343() {
     let a: re::math::point::Point3<()> = mk();
-    let b: re::math::vec::Vec3<re::render::World> = mk();
-    let _ = a + b;
+    let b: re::math::point::Point3<()> = mk();
+    let _r: re::math::point::Point3<re::render::World> = a - b;
 }
 
 pub fn p1344() {
-    let a: re::math::point::Point3<re::render::World> = mk();
-    let b: re::math::point::Point2<re::render::Model> = mk();
-    let _ = a + b;
+    let a: re::math::point::Point3<()> = mk();
+    let b: re::math::point::Point3<()> = mk();
+    let c: re::math::point::Point3<re::render::World> = mk();
+    let d = re::math::space::Affine::sub(&a, &b);
+    let _ = re::math::space::Affine::add(&c, &d);
 }
 
 pub fn p1345() {
-    let a: re::math::point::Point3<re::render::World> = mk();
-    let b: re::math::point::Point2<re::render::Model> = mk();
-    let _ = re::math::Lerp::lerp(&a, &b, 0.5);
-}
-
-pub fn p1346() {
-    let a: re::math::point::Point3<re::render::World> = mk();
-    let b: re::math::point::Point2<re::render::Model> = mk();
-    let _ = a - b;
+    let a: re::math::point::Point3<()> = mk();
+    let b: re::math::point::Point3<()> = mk();
+    let _r: re::math::vec::Vec3<re::render::Model> = a - b;
 }
 
 pub fn p1347() {
-    let a: re::math::point::Point3<re::render::World> = mk();
-    let b: re::math::point::Point2<()> = mk();
-    let _ = a + b;
+    let a: re::math::point::Point3<()> = mk();
+    let b: re::math::point::Point3<()> = mk();
+    let _r: re::math::vec::Vec3<re::render::World> = a - b;
 }
 
 pub fn p1348() {
-    let a: re::math::point::Point3<re::render::World> = mk();
-    let b: re::math::point::Point2<()> = mk();
-    let _ = re::math::Lerp::lerp(&a, &b, 0.5);
-}
-
-pub fn p1349() {
-    let a: re::math::point::Point3<re::render::World> = mk();
-    let b: re::math::point::Point2<()> = mk();
-    let _ = a - b;
-}
-
-pub fn p1350() {
-    let a: re::math::point::Point3<re::render::World> = mk();
-    let b: re::math::point::Point2<re::render::World> = mk();
+    let a: re::math::point::Point3<()> = mk();
+    let b: re::math::point::Point3<()> = mk();
     let _ = a + b;
 }
 
 pub fn p1351() {
-    let a: re::math::point::Point3<re::render::World> = mk();
-    let b: re::math::point::Point2<re::render::World> = mk();
-    let _ = re::math::Lerp::lerp(&a, &b, 0.5);
-}
-
-pub fn p1352() {
-    let a: re::math::point::Point3<re::render::World> = mk();
-    let b: re::math::point::Point2<re::render::World> = mk();
-    let _ = a - b;
-}
-
-pub fn p1353() {
-    let a: re::math::point::Point3<re::render::World> = mk();
-    let b: re::math::point::Point3<re::render::Model> = mk();
+    let a: re::math::point::Point3<()> = mk();
+    let b: re::math::point::Point3<re::render::World> = mk();
     let _r: re::math::point::Point3<re::render::Model> = a - b;
 }
 
-pub fn p1354() {
-    let a: re::math::point::Point3<re::render::World> = mk();
-    let b: re::math::point::Point3<re::render::Model> = mk();
+pub fn p1352() {
+    let a: re::math::point::Point3<()> = mk();
+    let b: re::math::point::Point3<re::render::World> = mk();
     let c: re::math::point::Point3<re::render::Model> = mk();
+    let d = re::math::space::Affine::sub(&a, &b);
+    let _ = re::math::space::Affine::add(&c, &d);
+}
+
+pub fn p1353() {
+    let a: re::math::point::Point3<()> = mk();
+    let b: re::math::point::Point3<re::render::World> = mk();
+    let _r: re::math::point::Point3<()> = a - b;
+}
+
+pub fn p1354() {
+    let a: re::math::point::Point3<()> = mk();
+    let b: re::math::point::Point3<re::render::World> = mk();
+    let c: re::math::point::Point3<()> = mk();
     let d = re::math::space::Affine::sub(&a, &b);
     let _ = re::math::space::Affine::add(&c, &d);
 }
 
 pub fn p1355() {
-    let a: re::math::point::Point3<re::render::World> = mk();
-    let b: re::math::point::Point3<re::render::Model> = mk();
-    let _r: re::math::point::Point3<()> = a - b;
+    let a: re::math::point::Point3<()> = mk();
+    let b: re::math::point::Point3<re::render::World> = mk();
+    let _r: re::math::point::Point3<re::render::World> = a - b;
 }
 
 pub fn p1356() {
-    let a: re::math::point::Point3<re::render::World> = mk();
-    let b: re::math::point::Point3<re::render::Model> = mk();
-    let c: re::math::point::Point3<()> = mk();
+    let a: re::math::point::Point3<()> = mk();
+    let b: re::math::point::Point3<re::render::World> = mk();
+    let c: re::math::point::Point3<re::render::World> = mk();
     let d = re::math::space::Affine::sub(&a, &b);
     let _ = re::math::space::Affine::add(&c, &d);
 }
 
 pub fn p1357() {
-    let a: re::math::point::Point3<re::render::World> = mk();
-    let b: re::math::point::Point3<re::render::Model> = mk();
-    let _r: re::math::point::Point3<re::render::World> = a - b;
+    let a: re::math::point::Point3<()> = mk();
+    let b: re::math::point::Point3<re::render::World> = mk();
+    let _r: re::math::vec::Vec3<re::render::Model> = a - b;
 }
 
 pub fn p1358() {
-    let a: re::math::point::Point3<re::render::World> = mk();
-    let b: re::math::point::Point3<re::render::Model> = mk();
-    let c: re::math::point::Point3<re::render::World> = mk();
-    let d = re::math::space::Affine::sub(&a, &b);
-    let _ = re::math::space::Affine::add(&c, &d);
+    let a: re::math::point::Point3<()> = mk();
+    let b: re::math::point::Point3<re::render::World> = mk();
+    let _r: re::math::vec::Vec3<()> = a - b;
 }
 
 pub fn p1359() {
-    let a: re::math::point::Point3<re::render::World> = mk();
-    let b: re::math::point::Point3<re::render::Model> = mk();
-    let _r: re::math::vec::Vec3<re::render::Model> = a - b;
+    let a: re::math::point::Point3<()> = mk();
+    let b: re::math::point::Point3<re::render::World> = mk();
+    let _r: re::math::vec::Vec3<re::render::World> = a - b;
 }
 
 pub fn p1360() {
-    let a: re::math::point::Point3<re::render::World> = mk();
-    let b: re::math::point::Point3<re::render::Model> = mk();
-    let _r: re::math::vec::Vec3<()> = a - b;
+    let a: re::math::point::Point3<()> = mk();
+    let b: re::math::point::Point3<re::render::World> = mk();
+    let _ = a + b;
 }
 
 pub fn p1361() {
-    let a: re::math::point::Point3<re::render::World> = mk();
-    let b: re::math::point::Point3<re::render::Model> = mk();
-    let _r: re::math::vec::Vec3<re::render::World> = a - b;
+    let a: re::math::point::Point3<()> = mk();
+    let b: re::math::point::Point3<re::render::World> = mk();
+    let _ = re::math::Lerp::lerp(&a, &b, 0.5);
 }
 
 pub fn p1362() {
-    let a: re::math::point::Point3<re::render::World> = mk();
-    let b: re::math::point::Point3<re::render::Model> = mk();
-    let _ = a + b;
+    let a: re::math::point::Point3<()> = mk();
+    let b: re::math::point::Point3<re::render::World> = mk();
+    let _ = a - b;
 }
 
 pub fn p1363() {
-    let a: re::math::point::Point3<re::render::World> = mk();
-    let b: re::math::point::Point3<re::render::Model> = mk();
-    let _ = re::math::Lerp::lerp(&a, &b, 0.5);
-}
-
-pub fn p1364() {
-    let a: re::math::point::Point3<re::render::World> = mk();
-    let b: re::math::point::Point3<re::render::Model> = mk();
-    let _ = a - b;
-}
-
-pub fn p1365() {
-    let a: re::math::point::Point3<re::render::World> = mk();
-    let b: re::math::point::Point3<()> = mk();
-    let _r: re::math::point::Point3<re::render::Model> = a - b;
+    let a: re::math::point::Point3<()> = mk();
+    let b: re::math::angle::SphericalVec = mk();
+    let _ = a + b;
 }
 
 pub fn p1366() {
-    let a: re::math::point::Point3<re::render::World> = mk();
-    let b: re::math::point::Point3<()> = mk();
-    let c: re::math::point::Point3<re::render::Model> = mk();
-    let d = re::math::space::Affine::sub(&a, &b);
-    let _ = re::math::space::Affine::add(&c, &d);
-}
-
-pub fn p1367() {
-    let a: re::math::point::Point3<re::render::World> = mk();
-    let b: re::math::point::Point3<()> = mk();
-    let _r: re::math::point::Point3<()> = a - b;
-}
-
-pub fn p1368() {
-    let a: re::math::point::Point3<re::render::World> = mk();
-    let b: re::math::point::Point3<()> = mk();
-    let c: re::math::point::Point3<()> = mk();
-    let d = re::math::space::Affine::sub(&a, &b);
-    let _ = re::math::space::Affine::add(&c, &d);
-}
-
-pub fn p1369() {
-    let a: re::math::point::Point3<re::render::World> = mk();
-    let b: re::math::point::Point3<()> = mk();
-    let _r: re::math::point::Point3<re::render::World> = a - b;
-}
-
-pub fn p1370() {
-    let a: re::math::point::Point3<re::render::World> = mk();
-    let b: re::math::point::Point3<()> = mk();
-    let c: re::math::point::Point3<re::render::World> = mk();
-    let d = re::math::space::Affine::sub(&a, &b);
-    let _ = re::math::space::Affine::add(&c, &d);
-}
-
-pub fn p1371() {
-    let a: re::math::point::Point3<re::render::World> = mk();
-    let b: re::math::point::Point3<()> = mk();
-    let _r: re::math::vec::Vec3<re::render::Model> = a - b;
-}
-
-pub fn p1372() {
-    let a: re::math::point::Point3<re::render::World> = mk();
-    let b: re::math::point::Point3<()> = mk();
-    let _r: re::math::vec::Vec3<()> = a - b;
-}
-
-pub fn p1373() {
-    let a: re::math::point::Point3<re::render::World> = mk();
-    let b: re::math::point::Point3<()> = mk();
-    let _r: re::math::vec::Vec3<re::render::World> = a - b;
-}
-
-pub fn p1374() {
-    let a: re::math::point::Point3<re::render::World> = mk();
-    let b: re::math::point::Point3<()> = mk();
-    let _ = a + b;
-}
-
-pub fn p1375() {
-    let a: re::math::point::Point3<re::render::World> = mk();
-    let b: re::math::point::Point3<()> = mk();
-    let _ = re::math::Lerp::lerp(&a, &b, 0.5);
-}
-
-pub fn p1376() {
-    let a: re::math::point::Point3<re::render::World> = mk();
-    let b: re::math::point::Point3<()> = mk();
-    let _ = a - b;
-}
-
-pub fn p1377() {
-    let a: re::math::point::Point3<re::render::World> = mk();
-    let b: re::math::point::Point3<re::render::World> = mk();
-    let _r: re::math::point::Point3<re::render::Model> = a - b;
-}
-
-pub fn p1378() {
-    let a: re::math::point::Point3<re::render::World> = mk();
-    let b: re::math::point::Point3<re::render::World> = mk();
-    let c: re::math::point::Point3<re::render::Model> = mk();
-    let d = re::math::space::Affine::sub(&a, &b);
-    let _ = re::math::space::Affine::add(&c, &d);
-}
-
-pub fn p1379() {
-    let a: re::math::point::Point3<re::render::World> = mk();
-    let b: re::math::point::Point3<re::render::World> = mk();
-    let _r: re::math::point::Point3<()> = a - b;
-}
-
-pub fn p1380() {
-    let a: re::math::point::Point3<re::render::World> = mk();
-    let b: re::math::point::Point3<re::render::World> = mk();
-    let c: re::math::point::Point3<()> = mk();
-    let d = re::math::space::Affine::sub(&a, &b);
-    let _ = re::math::space::Affine::add(&c, &d);
-}
-
-pub fn p1381() {
-    let a: re::math::point::Point3<re::render::World> = mk();
-    let b: re::math::point::Point3<re::render::World> = mk();
-    let _r: re::math::point::Point3<re::render::World> = a - b;
-}
-
-pub fn p1383() {
-    let a: re::math::point::Point3<re::render::World> = mk();
-    let b: re::math::point::Point3<re::render::World> = mk();
-    let _r: re::math::vec::Vec3<re::render::Model> = a - b;
-}
-
-pub fn p1384() {
-    let a: re::math::point::Point3<re::render::World> = mk();
-    let b: re::math::point::Point3<re::render::World> = mk();
-    let _r: re::math::vec::Vec3<()> = a - b;
-}
-
-pub fn p1386() {
-    let a: re::math::point::Point3<re::render::World> = mk();
-    let b: re::math::point::Point3<re::render::World> = mk();
-    let _ = a + b;
-}
-
-pub fn p1389() {
-    let a: re::math::point::Point3<re::render::World> = mk();
+    let a: re::math::point::Point3<()> = mk();
     let b: re::math::vec::Vec2<re::render::Model> = mk();
     let _ = a + b;
 }
 
-pub fn p1390() {
-    let a: re::math::point::Point3<re::render::World> = mk();
+pub fn p1367() {
+    let a: re::math::point::Point3<()> = mk();
     let b: re::math::vec::Vec2<()> = mk();
     let _ = a + b;
 }
 
+pub fn p1368() {
+    let a: re::math::point::Point3<()> = mk();
+    let b: re::math::vec::Vec2<re::render::World> = mk();
+    let _ = a + b;
+}
+
+pub fn p1369() {
+    let a: re::math::point::Point3<()> = mk();
+    let b: re::math::vec::Vec3<re::render::Model> = mk();
+    let _ = a + b;
+}
+
+pub fn p1371() {
+    let a: re::math::point::Point3<()> = mk();
+    let b: re::math::vec::Vec3<re::render::World> = mk();
+    let _ = a + b;
+}
+
+pub fn p1372() {
+    let a: re::math::point::Point3<()> = mk();
+    let _ = [a.clone(), a].into_iter().sum::<re::math::point::Point3<()>>();
+}
+
+pub fn p1373() {
+    let a: re::math::point::Point3<re::render::World> = mk();
+    let b: re::math::point::Point2<re::render::Model> = mk();
+    let _ = a + b;
+}
+
+pub fn p1374() {
+    let a: re::math::point::Point3<re::render::World> = mk();
+    let b: re::math::point::Point2<re::render::Model> = mk();
+    let _ = re::math::Lerp::lerp(&a, &b, 0.5);
+}
+
+pub fn p1375() {
+    let a: re::math::point::Point3<re::render::World> = mk();
+    let b: re::math::point::Point2<re::render::Model> = mk();
+    let _ = a - b;
+}
+
+pub fn p1376() {
+    let a: re::math::point::Point3<re::render::World> = mk();
+    let b: re::math::point::Point2<()> = mk();
+    let _ = a + b;
+}
+
+pub fn p1377() {
+    let a: re::math::point::Point3<re::render::World> = mk();
+    let b: re::math::point::Point2<()> = mk();
+    let _ = re::math::Lerp::lerp(&a, &b, 0.5);
+}
+
+pub fn p1378() {
+    let a: re::math::point::Point3<re::render::World> = mk();
+    let b: re::math::point::Point2<()> = mk();
+    let _ = a - b;
+}
+
+pub fn p1379() {
+    let a: re::math::point::Point3<re::render::World> = mk();
+    let b: re::math::point::Point2<re::render::World> = mk();
+    let _ = a + b;
+}
+
+pub fn p1380() {
+    let a: re::math::point::Point3<re::render::World> = mk();
+    let b: re::math::point::Point2<re::render::World> = mk();
+    let _ = re::math::Lerp::lerp(&a, &b, 0.5);
+}
+
+pub fn p1381() {
+    let a: re::math::point::Point3<re::render::World> = mk();
+    let b: re::math::point::Point2<re::render::World> = mk();
+    let _ = a - b;
+}
+
+pub fn p1382() {
+    let a: re::math::point::Point3<re::render::World> = mk();
+    let b: re::math::point::Point3<re::render::Model> = mk();
+    let _r: re::math::point::Point3<re::render::Model> = a - b;
+}
+
+pub fn p1383() {
+    let a: re::math::point::Point3<re::render::World> = mk();
+    let b: re::math::point::Point3<re::render::Model> = mk();
+    let c: re::math::point::Point3<re::render::Model> = mk();
+    let d = re::math::space::Affine::sub(&a, &b);
+    let _ = re::math::space::Affine::add(&c, &d);
+}
+
+pub fn p1384() {
+    let a: re::math::point::Point3<re::render::World> = mk();
+    let b: re::math::point::Point3<re::render::Model> = mk();
+    let _r: re::math::point::Point3<()> = a - b;
+}
+
+pub fn p1385() {
+    let a: re::math::point::Point3<re::render::World> = mk();
+    let b: re::math::point::Point3<re::render::Model> = mk();
+    let c: re::math::point::Point3<()> = mk();
+    let d = re::math::space::Affine::sub(&a, &b);
+    let _ = re::math::space::Affine::add(&c, &d);
+}
+
+pub fn p1386() {
+    let a: re::math::point::Point3<re::render::World> = mk();
+    let b: re::math::point::Point3<re::render::Model> = mk();
+    let _r: re::math::point::Point3<re::render::World> = a - b;
+}
+
+pub fn p1387() {
+    let a: re::math::point::Point3<re::render::World> = mk();
+    let b: re::math::point::Point3<re::render::Model> = mk();
+    let c: re::math::point::Point3<re::render::World> = mk();
+    let d = re::math::space::Affine::sub(&a, &b);
+    let _ = re::math::space::Affine::add(&c, &d);
+}
+
+pub fn p1388() {
+    let a: re::math::point::Point3<re::render::World> = mk();
+    let b: re::math::point::Point3<re::render::Model> = mk();
+    let _r: re::math::vec::Vec3<re::render::Model> = a - b;
+}
+
+pub fn p1389() {
+    let a: re::math::point::Point3<re::render::World> = mk();
+    let b: re::math::point::Point3<re::render::Model> = mk();
+    let _r: re::math::vec::Vec3<()> = a - b;
+}
+
+pub fn p1390() {
+    let a: re::math::point::Point3<re::render::World> = mk();
+    let b: re::math::point::Point3<re::render::Model> = mk();
+    let _r: re::math::vec::Vec3<re::render::World> = a - b;
+}
+
 pub fn p1391() {
     let a: re::math::point::Point3<re::render::World> = mk();
-    let b: re::math::vec::Vec2<re::render::World> = mk();
+    let b: re::math::point::Point3<re::render::Model> = mk();
     let _ = a + b;
 }
 
 pub fn p1392() {
     let a: re::math::point::Point3<re::render::World> = mk();
+    let b: re::math::point::Point3<re::render::Model> = mk();
+    let _ = re::math::Lerp::lerp(&a, &b, 0.5);
+}
+
+pub fn p1393() {
+    let a: re::math::point::Point3<re::render::World> = mk();
+    let b: re::math::point::Point3<re::render::Model> = mk();
+    let _ = a - b;
+}
+
+pub fn p1394() {
+    let a: re::math::point::Point3<re::render::World> = mk();
+    let b: re::math::point::Point3<()> = mk();
+    let _r: re::math::point::Point3<re::render::Model> = a - b;
+}
+
+pub fn p1395() {
+    let a: re::math::point::Point3<re::render::World> = mk();
+    let b: re::math::point::Point3<()> = mk();
+    let c: re::math::point::Point3<re::render::Model> = mk();
+    let d = re::math::space::Affine::sub(&a, &b);
+    let _ = re::math::space::Affine::add(&c, &d);
+}
+
+pub fn p1396() {
+    let a: re::math::point::Point3<re::render::World> = mk();
+    let b: re::math::point::Point3<()> = mk();
+    let _r: re::math::point::Point3<()> = a - b;
+}
+
+pub fn p1397() {
+    let a: re::math::point::Point3<re::render::World> = mk();
+    let b: re::math::point::Point3<()> = mk();
+    let c: re::math::point::Point3<()> = mk();
+    let d = re::math::space::Affine::sub(&a, &b);
+    let _ = re::math::space::Affine::add(&c, &d);
+}
+
+pub fn p1398() {
+    let a: re::math::point::Point3<re::render::World> = mk();
+    let b: re::math::point::Point3<()> = mk();
+    let _r: re::math::point::Point3<re::render::World> = a - b;
+}
+
+pub fn p1399() {
+    let a: re::math::point::Point3<re::render::World> = mk();
+    let b: re::math::point::Point3<()> = mk();
+    let c: re::math::point::Point3<re::render::World> = mk();
+    let d = re::math::space::Affine::sub(&a, &b);
+    let _ = re::math::space::Affine::add(&c, &d);
+}
+
+pub fn p1400() {
+    let a: re::math::point::Point3<re::render::World> = mk();
+    let b: re::math::point::Point3<()> = mk();
+    let _r: re::math::vec::Vec3<re::render::Model> = a - b;
+}
+
+pub fn p1401() {
+    let a: re::math::point::Point3<re::render::World> = mk();
+    let b: re::math::point::Point3<()> = mk();
+    let _r: re::math::vec::Vec3<()> = a - b;
+}
+
+pub fn p1402() {
+    let a: re::math::point::Point3<re::render::World> = mk();
+    let b: re::math::point::Point3<()> = mk();
+    let _r: re::math::vec::Vec3<re::render::World> = a - b;
+}
+
+pub fn p1403() {
+    let a: re::math::point::Point3<re::render::World> = mk();
+    let b: re::math::point::Point3<()> = mk();
+    let _ = a + b;
+}
+
+pub fn p1404() {
+    let a: re::math::point::Point3<re::render::World> = mk();
+    let b: re::math::point::Point3<()> = mk();
+    let _ = re::math::Lerp::lerp(&a, &b, 0.5);
+}
+
+pub fn p1405() {
+    let a: re::math::point::Point3<re::render::World> = mk();
+    let b: re::math::point::Point3<()> = mk();
+    let _ = a - b;
+}
+
+pub fn p1406() {
+    let a: re::math::point::Point3<re::render::World> = mk();
+    let b: re::math::point::Point3<re::render::World> = mk();
+    let _r: re::math::point::Point3<re::render::Model> = a - b;
+}
+
+pub fn p1407() {
+    let a: re::math::point::Point3<re::render::World> = mk();
+    let b: re::math::point::Point3<re::render::World> = mk();
+    let c: re::math::point::Point3<re::render::Model> = mk();
+    let d = re::math::space::Affine::sub(&a, &b);
+    let _ = re::math::space::Affine::add(&c, &d);
+}
+
+pub fn p1408() {
+    let a: re::math::point::Point3<re::render::World> = mk();
+    let b: re::math::point::Point3<re::render::World> = mk();
+    let _r: re::math::point::Point3<()> = a - b;
+}
+
+pub fn p1409() {
+    let a: re::math::point::Point3<re::render::World> = mk();
+    let b: re::math::point::Point3<re::render::World> = mk();
+    let c: re::math::point::Point3<()> = mk();
+    let d = re::math::space::Affine::sub(&a, &b);
+    let _ = re::math::space::Affine::add(&c, &d);
+}
+
+pub fn p1410() {
+    let a: re::math::point::Point3<re::render::World> = mk();
+    let b: re::math::point::Point3<re::render::World> = mk();
+    let _r: re::math::point::Point3<re::render::World> = a - b;
+}
+
+pub fn p1412() {
+    let a: re::math::point::Point3<re::render::World> = mk();
+    let b: re::math::point::Point3<re::render::World> = mk();
+    let _r: re::math::vec::Vec3<re::render::Model> = a - b;
+}
+
+pub fn p1413() {
+    let a: re::math::point::Point3<re::render::World> = mk();
+    let b: re::math::point::Point3<re::render::World> = mk();
+    let _r: re::math::vec::Vec3<()> = a - b;
+}
+
+pub fn p1415() {
+    let a: re::math::point::Point3<re::render::World> = mk();
+    let b: re::math::point::Point3<re::render::World> = mk();
+    let _ = a + b;
+}
+
+pub fn p1418() {
+    let a: re::math::point::Point3<re::render::World> = mk();
+    let b: re::math::vec::Vec2<re::render::Model> = mk();
+    let _ = a + b;
+}
+
+pub fn p1419() {
+    let a: re::math::point::Point3<re::render::World> = mk();
+    let b: re::math::vec::Vec2<()> = mk();
+    let _ = a + b;
+}
+
+pub fn p1420() {
+    let a: re::math::point::Point3<re::render::World> = mk();
+    let b: re::math::vec::Vec2<re::render::World> = mk();
+    let _ = a + b;
+}
+
+pub fn p1421() {
+    let a: re::math::point::Point3<re::render::World> = mk();
     let b: re::math::vec::Vec3<re::render::Model> = mk();
     let _ = a + b;
 }
 
-pub fn p1393() {
+pub fn p1422() {
     let a: re::math::point::Point3<re::render::World> = mk();
     let b: re::math::vec::Vec3<()> = mk();
     let _ = a + b;
 }
 
-pub fn p1395() {
-    let a: re::math::vec::Vec2<re::render::Model> = mk();
-    let b: re::math::point::Point2<re::render::Model> = mk();
-    let _ = re::math::Lerp::lerp(&a, &b, 0.5);
-}
-
-pub fn p1396() {
-    let a: re::math::vec::Vec2<re::render::Model> = mk();
-    let b: re::math::point::Point2<()> = mk();
-    let _ = re::math::Lerp::lerp(&a, &b, 0.5);
-}
-
-pub fn p1397() {
-    let a: re::math::vec::Vec2<re::render::Model> = mk();
-    let b: re::math::point::Point2<re::render::World> = mk();
-    let _ = re::math::Lerp::lerp(&a, &b, 0.5);
-}
-
-pub fn p1398() {
-    let a: re::math::vec::Vec2<re::render::Model> = mk();
-    let b: re::math::point::Point3<re::render::Model> = mk();
-    let _ = re::math::Lerp::lerp(&a, &b, 0.5);
-}
-
-pub fn p1399() {
-    let a: re::math::vec::Vec2<re::render::Model> = mk();
-    let b: re::math::point::Point3<()> = mk();
-    let _ = re::math::Lerp::lerp(&a, &b, 0.5);
-}
-
-pub fn p1400() {
-    let a: re::math::vec::Vec2<re::render::Model> = mk();
-    let b: re::math::point::Point3<re::render::World> = mk();
-    let _ = re::math::Lerp::lerp(&a, &b, 0.5);
-}
-
-pub fn p1405() {
-    let a: re::math::vec::Vec2<re::render::Model> = mk();
-    let b: re::math::vec::Vec2<()> = mk();
-    let _ = a + b;
-}
-
-pub fn p1406() {
-    let a: re::math::vec::Vec2<re::render::Model> = mk();
-    let b: re::math::vec::Vec2<()> = mk();
-    let _ = a.dot(&b);
-}
-
-pub fn p1407() {
-    let a: re::math::vec::Vec2<re::render::Model> = mk();
-    let b: re::math::vec::Vec2<()> = mk();
-    let _ = re::math::Lerp::lerp(&a, &b, 0.5);
-}
-
-pub fn p1408() {
-    let a: re::math::vec::Vec2<re::render::Model> = mk();
-    let b: re::math::vec::Vec2<()> = mk();
-    let _ = a - b;
-}
-
-pub fn p1409() {
-    let a: re::math::vec::Vec2<re::render::Model> = mk();
-    let b: re::math::vec::Vec2<re::render::World> = mk();
-    let _ = a + b;
-}
-
-pub fn p1410() {
-    let a: re::math::vec::Vec2<re::render::Model> = mk();
-    let b: re::math::vec::Vec2<re::render::World> = mk();
-    let _ = a.dot(&b);
-}
-
-pub fn p1411() {
-    let a: re::math::vec::Vec2<re::render::Model> = mk();
-    let b: re::math::vec::Vec2<re::render::World> = mk();
-    let _ = re::math::Lerp::lerp(&a, &b, 0.5);
-}
-
-pub fn p1412() {
-    let a: re::math::vec::Vec2<re::render::Model> = mk();
-    let b: re::math::vec::Vec2<re::render::World> = mk();
-    let _ = a - b;
-}
-
-pub fn p1413() {
-    let a: re::math::vec::Vec2<re::render::Model> = mk();
-    let b: re::math::vec::Vec3<re::render::Model> = mk();
-    let _ = a + b;
-}
-
-pub fn p1414() {
-    let a: re::math::vec::Vec2<re::render::Model> = mk();
-    let b: re::math::vec::Vec3<re::render::Model> = mk();
-    let _ = a.dot(&b);
-}
-
-pub fn p1415() {
-    let a: re::math::vec::Vec2<re::render::Model> = mk();
-    let b: re::math::vec::Vec3<re::render::Model> = mk();
-    let _ = re::math::Lerp::lerp(&a, &b, 0.5);
-}
-
-pub fn p1416() {
-    let a: re::math::vec::Vec2<re::render::Model> = mk();
-    let b: re::math::vec::Vec3<re::render::Model> = mk();
-    let _ = a - b;
-}
-
-pub fn p1417() {
-    let a: re::math::vec::Vec2<re::render::Model> = mk();
-    let b: re::math::vec::Vec3<()> = mk();
-    let _ = a + b;
-}
-
-pub fn p1418() {
-    let a: re::math::vec::Vec2<re::render::Model> = mk();
-    let b: re::math::vec::Vec3<()> = mk();
-    let _ = a.dot(&b);
-}
-
-pub fn p1419() {
-    let a: re::math::vec::Vec2<re::render::Model> = mk();
-    let b: re::math::vec::Vec3<()> = mk();
-    let _ = re::math::Lerp::lerp(&a, &b, 0.5);
-}
-
-pub fn p1420() {
-    let a: re::math::vec::Vec2<re::render::Model> = mk();
-    let b: re::math::vec::Vec3<()> = mk();
-    let _ = a - b;
-}
-
-pub fn p1421() {
-    let a: re::math::vec::Vec2<re::render::Model> = mk();
-    let b: re::math::vec::Vec3<re::render::World> = mk();
-    let _ = a + b;
-}
-
-pub fn p1422() {
-    let a: re::math::vec::Vec2<re::render::Model> = mk();
-    let b: re::math::vec::Vec3<re::render::World> = mk();
-    let _ = a.dot(&b);
-}
-
-pub fn p1423() {
-    let a: re::math::vec::Vec2<re::render::Model> = mk();
-    let b: re::math::vec::Vec3<re::render::World> = mk();
-    let _ = re::math::Lerp::lerp(&a, &b, 0.5);
-}
-
 pub fn p1424() {
-    let a: re::math::vec::Vec2<re::render::Model> = mk();
-    let b: re::math::vec::Vec3<re::render::World> = mk();
-    let _ = a - b;
+    let a: re::math::point::Point3<re::render::World> = mk();
+    let _ = [a.clone(), a].into_iter().sum::<re::math::point::Point3<re::render::World>>();
 }
 
 pub fn p1425() {
-    let a: re::math::vec::Vec2<()> = mk();
-    let b: re::math::point::Point2<re::render::Model> = mk();
-    let _ = re::math::Lerp::lerp(&a, &b, 0.5);
+    let a: re::math::vec::Vec2<re::render::Model> = mk();
+    let b: re::math::angle::PolarVec = mk();
+    let _ = a + b;
 }
 
 pub fn p1426() {
-    let a: re::math::vec::Vec2<()> = mk();
-    let b: re::math::point::Point2<()> = mk();
-    let _ = re::math::Lerp::lerp(&a, &b, 0.5);
+    let a: re::math::vec::Vec2<re::render::Model> = mk();
+    let b: re::math::angle::PolarVec = mk();
+    let _ = a + b.to_cart();
 }
 
 pub fn p1427() {
-    let a: re::math::vec::Vec2<()> = mk();
-    let b: re::math::point::Point2<re::render::World> = mk();
-    let _ = re::math::Lerp::lerp(&a, &b, 0.5);
+    let a: re::math::vec::Vec2<re::render::Model> = mk();
+    let b: re::math::angle::PolarVec = mk();
+    let _ = a + b.into();
 }
 
 pub fn p1428() {
-    let a: re::math::vec::Vec2<()> = mk();
-    let b: re::math::point::Point3<re::render::Model> = mk();
+    let a: re::math::vec::Vec2<re::render::Model> = mk();
+    let b: re::math::point::Point2<re::render::Model> = mk();
     let _ = re::math::Lerp::lerp(&a, &b, 0.5);
 }
 
 pub fn p1429() {
-    let a: re::math::vec::Vec2<()> = mk();
-    let b: re::math::point::Point3<()> = mk();
+    let a: re::math::vec::Vec2<re::render::Model> = mk();
+    let b: re::math::point::Point2<()> = mk();
     let _ = re::math::Lerp::lerp(&a, &b, 0.5);
 }
 
 pub fn p1430() {
-    let a: re::math::vec::Vec2<()> = mk();
-    let b: re::math::point::Point3<re::render::World> = mk();
+    let a: re::math::vec::Vec2<re::render::Model> = mk();
+    let b: re::math::point::Point2<re::render::World> = mk();
     let _ = re::math::Lerp::lerp(&a, &b, 0.5);
 }
 
 pub fn p1431() {
-    let a: re::math::vec::Vec2<()> = mk();
-    let b: re::math::vec::Vec2<re::render::Model> = mk();
-    let _ = a + b;
+    let a: re::math::vec::Vec2<re::render::Model> = mk();
+    let b: re::math::point::Point3<re::render::Model> = mk();
+    let _ = re::math::Lerp::lerp(&a, &b, 0.5);
 }
 
 pub fn p1432() {
-    let a: re::math::vec::Vec2<()> = mk();
-    let b: re::math::vec::Vec2<re::render::Model> = mk();
-    let _ = a.dot(&b);
+    let a: re::math::vec::Vec2<re::render::Model> = mk();
+    let b: re::math::point::Point3<()> = mk();
+    let _ = re::math::Lerp::lerp(&a, &b, 0.5);
 }
 
 pub fn p1433() {
-    let a: re::math::vec::Vec2<()> = mk();
-    let b: re::math::vec::Vec2<re::render::Model> = mk();
+    let a: re::math::vec::Vec2<re::render::Model> = mk();
+    let b: re::math::point::Point3<re::render::World> = mk();
     let _ = re::math::Lerp::lerp(&a, &b, 0.5);
 }
 
 pub fn p1434() {
-    let a: re::math::vec::Vec2<()> = mk();
-    let b: re::math::vec::Vec2<re::render::Model> = mk();
-    let _ = a - b;
-}
-
-pub fn p1439() {
-    let a: re::math::vec::Vec2<()> = mk();
-    let b: re::math::vec::Vec2<re::render::World> = mk();
+    let a: re::math::vec::Vec2<re::render::Model> = mk();
+    let b: re::math::angle::SphericalVec = mk();
     let _ = a + b;
 }
 
-pub fn p1440() {
-    let a: re::math::vec::Vec2<()> = mk();
-    let b: re::math::vec::Vec2<re::render::World> = mk();
-    let _ = a.dot(&b);
+pub fn p1435() {
+    let a: re::math::vec::Vec2<re::render::Model> = mk();
+    let b: re::math::angle::SphericalVec = mk();
+    let _ = a + b.to_cart();
+}
+
+pub fn p1436() {
+    let a: re::math::vec::Vec2<re::render::Model> = mk();
+    let b: re::math::angle::SphericalVec = mk();
+    let _ = a + b.into();
 }
 
 pub fn p1441() {
-    let a: re::math::vec::Vec2<()> = mk();
-    let b: re::math::vec::Vec2<re::render::World> = mk();
-    let _ = re::math::Lerp::lerp(&a, &b, 0.5);
+    let a: re::math::vec::Vec2<re::render::Model> = mk();
+    let b: re::math::vec::Vec2<()> = mk();
+    let _ = a + b;
 }
 
 pub fn p1442() {
-    let a: re::math::vec::Vec2<()> = mk();
+    let a: re::math::vec::Vec2<re::render::Model> = mk();
+    let b: re::math::vec::Vec2<()> = mk();
+    let _ = a.dot(&b);
+}
+
+pub fn p1443() {
+    let a: re::math::vec::Vec2<re::render::Model> = mk();
+    let b: re::math::vec::Vec2<()> = mk();
+    let _ = re::math::Lerp::lerp(&a, &b, 0.5);
+}
+
+pub fn p1444() {
+    let a: re::math::vec::Vec2<re::render::Model> = mk();
+    let b: re::math::vec::Vec2<()> = mk();
+    let _ = a - b;
+}
+
+pub fn p1445() {
+    let a: re::math::vec::Vec2<re::render::Model> = mk();
+    let b: re::math::vec::Vec2<re::render::World> = mk();
+    let _ = a + b;
+}
+
+pub fn p1446() {
+    let a: re::math::vec::Vec2<re::render::Model> = mk();
+    let b: re::math::vec::Vec2<re::render::World> = mk();
+    let _ = a.dot(&b);
+}
+
+pub fn p1447() {
+    let a: re::math::vec::Vec2<re::render::Model> = mk();
+    let b: re::math::vec::Vec2<re::render::World> = mk();
+    let _ = re::math::Lerp::lerp(&a, &b, 0.5);
+}
+
+pub fn p1448() {
+    let a: re::math::vec::Vec2<re::render::Model> = mk();
     let b: re::math::vec::Vec2<re::render::World> = mk();
     let _ = a - b;
 }
 
-pub fn p1443() {
-    let a: re::math::vec::Vec2<()> = mk();
-    let b: re::math::vec::Vec3<re::render::Model> = mk();
-    let _ = a + b;
-}
-
-pub fn p1444() {
-    let a: re::math::vec::Vec2<()> = mk();
-    let b: re::math::vec::Vec3<re::render::Model> = mk();
-    let _ = a.dot(&b);
-}
-
-pub fn p1445() {
-    let a: re::math::vec::Vec2<()> = mk();
-    let b: re::math::vec::Vec3<re::render::Model> = mk();
-    let _ = re::math::Lerp::lerp(&a, &b, 0.5);
-}
-
-pub fn p1446() {
-    let a: re::math::vec::Vec2<()> = mk();
-    let b: re::math::vec::Vec3<re::render::Model> = mk();
-    let _ = a - b;
-}
-
-pub fn p1447() {
-    let a: re::math::vec::Vec2<()> = mk();
-    let b: re::math::vec::Vec3<()> = mk();
-    let _ = a + b;
-}
-
-pub fn p1448() {
-    let a: re::math::vec::Vec2<()> = mk();
-    let b: re::math::vec::Vec3<()> = mk();
-    let _ = a.dot(&b);
-}
-
 pub fn p1449() {
-    let a: re::math::vec::Vec2<()> = mk();
-    let b: re::math::vec::Vec3<()> = mk();
-    let _ = re::math::Lerp::lerp(&a, &b, 0.5);
+    let a: re::math::vec::Vec2<re::render::Model> = mk();
+    let b: re::math::vec::Vec3<re::render::Model> = mk();
+    let _ = a + b;
 }
 
 pub fn p1450() {
-    let a: re::math::vec::Vec2<()> = mk();
-    let b: re::math::vec::Vec3<()> = mk();
-    let _ = a - b;
-}
-
-pub fn p1451() {
-    let a: re::math::vec::Vec2<()> = mk();
-    let b: re::math::vec::Vec3<re::render::World> = mk();
-    let _ = a + b;
-}
-
-pub fn p1452() {
-    let a: re::math::vec::Vec2<()> = mk();
-    let b: re::math::vec::Vec3<re::render::World> = mk();
+    let a: re::math::vec::Vec2<re::render::Model> = mk();
+    let b: re::math::vec::Vec3<re::render::Model> = mk();
     let _ = a.dot(&b);
 }
 
-pub fn p1453() {
-    let a: re::math::vec::Vec2<()> = mk();
-    let b: re::math::vec::Vec3<re::render::World> = mk();
+pub fn p1451() {
+    let a: re::math::vec::Vec2<re::render::Model> = mk();
+    let b: re::math::vec::Vec3<re::render::Model> = mk();
     let _ = re::math::Lerp::lerp(&a, &b, 0.5);
 }
 
-pub fn p1454() {
-    let a: re::math::vec::Vec2<()> = mk();
-    let b: re::math::vec::Vec3<re::render::World> = mk();
+pub fn p1452() {
+    let a: re::math::vec::Vec2<re::render::Model> = mk();
+    let b: re::math::vec::Vec3<re::render::Model> = mk();
     let _ = a - b;
 }
 
+pub fn p1453() {
+    let a: re::math::vec::Vec2<re::render::Model> = mk();
+    let b: re::math::vec::Vec3<()> = mk();
+    let _ = a + b;
+}
+
+pub fn p1454() {
+    let a: re::math::vec::Vec2<re::render::Model> = mk();
+    let b: re::math::vec::Vec3<()> = mk();
+    let _ = a.dot(&b);
+}
+
 pub fn p1455() {
-    let a: re::math::vec::Vec2<re::render::World> = mk();
-    let b: re::math::point::Point2<re::render::Model> = mk();
+    let a: re::math::vec::Vec2<re::render::Model> = mk();
+    let b: re::math::vec::Vec3<()> = mk();
     let _ = re::math::Lerp::lerp(&a, &b, 0.5);
 }
 
 pub fn p1456() {
+    let a: re::math::vec::Vec2<re::render::Model> = mk();
+    let b: re::math::vec::Vec3<()> = mk();
+    let _ = a - b;
+}
+
+pub fn p1457() {
+    let a: re::math::vec::Vec2<re::render::Model> = mk();
+    let b: re::math::vec::Vec3<re::render::World> = mk();
+    let _ = a + b;
+}
+
+pub fn p1458() {
+    let a: re::math::vec::Vec2<re::render::Model> = mk();
+    let b: re::math::vec::Vec3<re::render::World> = mk();
+    let _ = a.dot(&b);
+}
+
+pub fn p1459() {
+    let a: re::math::vec::Vec2<re::render::Model> = mk();
+    let b: re::math::vec::Vec3<re::render::World> = mk();
+    let _ = re::math::Lerp::lerp(&a, &b, 0.5);
+}
+
+pub fn p1460() {
+    let a: re::math::vec::Vec2<re::render::Model> = mk();
+    let b: re::math::vec::Vec3<re::render::World> = mk();
+    let _ = a - b;
+}
+
+pub fn p1462() {
+    let a: re::math::vec::Vec2<()> = mk();
+    let b: re::math::angle::PolarVec = mk();
+    let _ = a + b;
+}
+
+pub fn p1465() {
+    let a: re::math::vec::Vec2<()> = mk();
+    let b: re::math::point::Point2<re::render::Model> = mk();
+    let _ = re::math::Lerp::lerp(&a, &b, 0.5);
+}
+
+pub fn p1466() {
+    let a: re::math::vec::Vec2<()> = mk();
+    let b: re::math::point::Point2<()> = mk();
+    let _ = re::math::Lerp::lerp(&a, &b, 0.5);
+}
+
+pub fn p1467() {
+    let a: re::math::vec::Vec2<()> = mk();
+    let b: re::math::point::Point2<re::render::World> = mk();
+    let _ = re::math::Lerp::lerp(&a, &b, 0.5);
+}
+
+pub fn p1468() {
+    let a: re::math::vec::Vec2<()> = mk();
+    let b: re::math::point::Point3<re::render::Model> = mk();
+    let _ = re::math::Lerp::lerp(&a, &b, 0.5);
+}
+
+pub fn p1469() {
+    let a: re::math::vec::Vec2<()> = mk();
+    let b: re::math::point::Point3<()> = mk();
+    let _ = re::math::Lerp::lerp(&a, &b, 0.5);
+}
+
+pub fn p1470() {
+    let a: re::math::vec::Vec2<()> = mk();
+    let b: re::math::point::Point3<re::render::World> = mk();
+    let _ = re::math::Lerp::lerp(&a, &b, 0.5);
+}
+
+pub fn p1471() {
+    let a: re::math::vec::Vec2<()> = mk();
+    let b: re::math::angle::SphericalVec = mk();
+    let _ = a + b;
+}
+
+pub fn p1472() {
+    let a: re::math::vec::Vec2<()> = mk();
+    let b: re::math::angle::SphericalVec = mk();
+    let _ = a + b.to_cart();
+}
+
+pub fn p1473() {
+    let a: re::math::vec::Vec2<()> = mk();
+    let b: re::math::angle::SphericalVec = mk();
+    let _ = a + b.into();
+}
+
+pub fn p1474() {
+    let a: re::math::vec::Vec2<()> = mk();
+    let b: re::math::vec::Vec2<re::render::Model> = mk();
+    let _ = a + b;
+}
+
+pub fn p1475() {
+    let a: re::math::vec::Vec2<()> = mk();
+    let b: re::math::vec::Vec2<re::render::Model> = mk();
+    let _ = a.dot(&b);
+}
+
+pub fn p1476() {
+    let a: re::math::vec::Vec2<()> = mk();
+    let b: re::math::vec::Vec2<re::render::Model> = mk();
+    let _ = re::math::Lerp::lerp(&a, &b, 0.5);
+}
+
+pub fn p1477() {
+    let a: re::math::vec::Vec2<()> = mk();
+    let b: re::math::vec::Vec2<re::render::Model> = mk();
+    let _ = a - b;
+}
+
+pub fn p1482() {
+    let a: re::math::vec::Vec2<()> = mk();
+    let b: re::math::vec::Vec2<re::render::World> = mk();
+    let _ = a + b;
+}
+
+pub fn p1483() {
+    let a: re::math::vec::Vec2<()> = mk();
+    let b: re::math::vec::Vec2<re::render::World> = mk();
+    let _ = a.dot(&b);
+}
+
+pub fn p1484() {
+    let a: re::math::vec::Vec2<()> = mk();
+    let b: re::math::vec::Vec2<re::render::World> = mk();
+    let _ = re::math::Lerp::lerp(&a, &b, 0.5);
+}
+
+pub fn p1485() {
+    let a: re::math::vec::Vec2<()> = mk();
+    let b: re::math::vec::Vec2<re::render::World> = mk();
+    let _ = a - b;
+}
+
+pub fn p1486() {
+    let a: re::math::vec::Vec2<()> = mk();
+    let b: re::math::vec::Vec3<re::render::Model> = mk();
+    let _ = a + b;
+}
+
+pub fn p1487() {
+    let a: re::math::vec::Vec2<()> = mk();
+    let b: re::math::vec::Vec3<re::render::Model> = mk();
+    let _ = a.dot(&b);
+}
+
+pub fn p1488() {
+    let a: re::math::vec::Vec2<()> = mk();
+    let b: re::math::vec::Vec3<re::render::Model> = mk();
+    let _ = re::math::Lerp::lerp(&a, &b, 0.5);
+}
+
+pub fn p1489() {
+    let a: re::math::vec::Vec2<()> = mk();
+    let b: re::math::vec::Vec3<re::render::Model> = mk();
+    let _ = a - b;
+}
+
+pub fn p1490() {
+    let a: re::math::vec::Vec2<()> = mk();
+    let b: re::math::vec::Vec3<()> = mk();
+    let _ = a + b;
+}
+
+pub fn p1491() {
+    let a: re::math::vec::Vec2<()> = mk();
+    let b: re::math::vec::Vec3<()> = mk();
+    let _ = a.dot(&b);
+}
+
+pub fn p1492() {
+    let a: re::math::vec::Vec2<()> = mk();
+    let b: re::math::vec::Vec3<()> = mk();
+    let _ = re::math::Lerp::lerp(&a, &b, 0.5);
+}
+
+pub fn p1493() {
+    let a: re::math::vec::Vec2<()> = mk();
+    let b: re::math::vec::Vec3<()> = mk();
+    let _ = a - b;
+}
+
+pub fn p1494() {
+    let a: re::math::vec::Vec2<()> = mk();
+    let b: re::math::vec::Vec3<re::render::World> = mk();
+    let _ = a + b;
+}
+
+pub fn p1495() {
+    let a: re::math::vec::Vec2<()> = mk();
+    let b: re::math::vec::Vec3<re::render::World> = mk();
+    let _ = a.dot(&b);
+}
+
+pub fn p1496() {
+    let a: re::math::vec::Vec2<()> = mk();
+    let b: re::math::vec::Vec3<re::render::World> = mk();
+    let _ = re::math::Lerp::lerp(&a, &b, 0.5);
+}
+
+pub fn p1497() {
+    let a: re::math::vec::Vec2<()> = mk();
+    let b: re::math::vec::Vec3<re::render::World> = mk();
+    let _ = a - b;
+}
+
+pub fn p1499() {
+    let a: re::math::vec::Vec2<re::render::World> = mk();
+    let b: re::math::point::Point2<re::render::Model> = mk();
+    let _ = re::math::Lerp::lerp(&a, &b, 0.5);
+}
+
+pub fn p1500() {
     let a: re::math::vec::Vec2<re::render::World> = mk();
     let b: re::math::point::Point2<()> = mk();
     let _ = re::math::Lerp::lerp(&a, &b, 0.5);
 }
 
-pub fn p1457() {
+pub fn p1501() {
     let a: re::math::vec::Vec2<re::render::World> = mk();
     let b: re::math::point::Point2<re::render::World> = mk();
     let _ = re::math::Lerp::lerp(&a, &b, 0.5);
 }
 
-pub fn p1458() {
+pub fn p1502() {
     let a: re::math::vec::Vec2<re::render::World> = mk();
     let b: re::math::point::Point3<re::render::Model> = mk();
     let _ = re::math::Lerp::lerp(&a, &b, 0.5);
 }
 
-pub fn p1459() {
+pub fn p1503() {
     let a: re::math::vec::Vec2<re::render::World> = mk();
     let b: re::math::point::Point3<()> = mk();
     let _ = re::math::Lerp::lerp(&a, &b, 0.5);
 }
 
-pub fn p1460() {
+pub fn p1504() {
     let a: re::math::vec::Vec2<re::render::World> = mk();
     let b: re::math::point::Point3<re::render::World> = mk();
     let _ = re::math::Lerp::lerp(&a, &b, 0.5);
 }
 
-pub fn p1461() {
+pub fn p1505() {
     let a: re::math::vec::Vec2<re::render::World> = mk();
     let b: re::math::vec::Vec2<re::render::Model> = mk();
     let _ = a + b;
 }
 
-pub fn p1462() {
+pub fn p1506() {
     let a: re::math::vec::Vec2<re::render::World> = mk();
     let b: re::math::vec::Vec2<re::render::Model> = mk();
     let _ = a.dot(&b);
 }
 
-pub fn p1463() {
+pub fn p1507() {
     let a: re::math::vec::Vec2<re::render::World> = mk();
     let b: re::math::vec::Vec2<re::render::Model> = mk();
     let _ = re::math::Lerp::lerp(&a, &b, 0.5);
 }
 
-pub fn p1464() {
+pub fn p1508() {
     let a: re::math::vec::Vec2<re::render::World> = mk();
     let b: re::math::vec::Vec2<re::render::Model> = mk();
     let _ = a - b;
 }
 
-pub fn p1465() {
+pub fn p1509() {
     let a: re::math::vec::Vec2<re::render::World> = mk();
     let b: re::math::vec::Vec2<()> = mk();
     let _ = a + b;
 }
 
-pub fn p1466() {
+pub fn p1510() {
     let a: re::math::vec::Vec2<re::render::World> = mk();
     let b: re::math::vec::Vec2<()> = mk();
     let _ = a.dot(&b);
 }
 
-pub fn p1467() {
+pub fn p1511() {
     let a: re::math::vec::Vec2<re::render::World> = mk();
     let b: re::math::vec::Vec2<()> = mk();
     let _ = re::math::Lerp::lerp(&a, &b, 0.5);
 }
 
-pub fn p1468() {
+pub fn p1512() {
     let a: re::math::vec::Vec2<re::render::World> = mk();
     let b: re::math::vec::Vec2<()> = mk();
     let _ = a - b;
 }
 
-pub fn p1473() {
+pub fn p1517() {
     let a: re::math::vec::Vec2<re::render::World> = mk();
     let b: re::math::vec::Vec3<re::render::Model> = mk();
     let _ = a + b;
 }
 
-pub fn p1474() {
+pub fn p1518() {
     let a: re::math::vec::Vec2<re::render::World> = mk();
     let b: re::math::vec::Vec3<re::render::Model> = mk();
     let _ = a.dot(&b);
 }
 
-pub fn p1475() {
+pub fn p1519() {
     let a: re::math::vec::Vec2<re::render::World> = mk();
     let b: re::math::vec::Vec3<re::render::Model> = mk();
     let _ = re::math::Lerp::lerp(&a, &b, 0.5);
 }
 
-pub fn p1476() {
+pub fn p1520() {
     let a: re::math::vec::Vec2<re::render::World> = mk();
     let b: re::math::vec::Vec3<re::render::Model> = mk();
     let _ = a - b;
 }
 
-pub fn p1477() {
+pub fn p1521() {
     let a: re::math::vec::Vec2<re::render::World> = mk();
     let b: re::math::vec::Vec3<()> = mk();
     let _ = a + b;
 }
 
-pub fn p1478() {
+pub fn p1522() {
     let a: re::math::vec::Vec2<re::render::World> = mk();
     let b: re::math::vec::Vec3<()> = mk();
     let _ = a.dot(&b);
 }
 
-pub fn p1479() {
+pub fn p1523() {
     let a: re::math::vec::Vec2<re::render::World> = mk();
     let b: re::math::vec::Vec3<()> = mk();
     let _ = re::math::Lerp::lerp(&a, &b, 0.5);
 }
 
-pub fn p1480() {
+pub fn p1524() {
     let a: re::math::vec::Vec2<re::render::World> = mk();
     let b: re::math::vec::Vec3<()> = mk();
     let _ = a - b;
 }
 
-pub fn p1481() {
+pub fn p1525() {
     let a: re::math::vec::Vec2<re::render::World> = mk();
     let b: re::math::vec::Vec3<re::render::World> = mk();
     let _ = a + b;
 }
 
-pub fn p1482() {
+pub fn p1526() {
     let a: re::math::vec::Vec2<re::render::World> = mk();
     let b: re::math::vec::Vec3<re::render::World> = mk();
     let _ = a.dot(&b);
 }
 
-pub fn p1483() {
+pub fn p1527() {
     let a: re::math::vec::Vec2<re::render::World> = mk();
     let b: re::math::vec::Vec3<re::render::World> = mk();
     let _ = re::math::Lerp::lerp(&a, &b, 0.5);
 }
 
-pub fn p1484() {
+pub fn p1528() {
     let a: re::math::vec::Vec2<re::render::World> = mk();
     let b: re::math::vec::Vec3<re::render::World> = mk();
     let _ = a - b;
 }
 
-pub fn p1485() {
+pub fn p1530() {
+    let a: re::math::vec::Vec3<re::render::Model> = mk();
+    let b: re::math::angle::PolarVec = mk();
+    let _ = a + b;
+}
+
+pub fn p1531() {
+    let a: re::math::vec::Vec3<re::render::Model> = mk();
+    let b: re::math::angle::PolarVec = mk();
+    let _ = a + b.to_cart();
+}
+
+pub fn p1532() {
+    let a: re::math::vec::Vec3<re::render::Model> = mk();
+    let b: re::math::angle::PolarVec = mk();
+    let _ = a + b.into();
+}
+
+pub fn p1533() {
     let a: re::math::vec::Vec3<re::render::Model> = mk();
     let b: re::math::point::Point2<re::render::Model> = mk();
     let _ = re::math::Lerp::lerp(&a, &b, 0.5);
 }
 
-pub fn p1486() {
+pub fn p1534() {
     let a: re::math::vec::Vec3<re::render::Model> = mk();
     let b: re::math::point::Point2<()> = mk();
     let _ = re::math::Lerp::lerp(&a, &b, 0.5);
 }
 
-pub fn p1487() {
+pub fn p1535() {
     let a: re::math::vec::Vec3<re::render::Model> = mk();
     let b: re::math::point::Point2<re::render::World> = mk();
     let _ = re::math::Lerp::lerp(&a, &b, 0.5);
 }
 
-pub fn p1488() {
+pub fn p1536() {
     let a: re::math::vec::Vec3<re::render::Model> = mk();
     let b: re::math::point::Point3<re::render::Model> = mk();
     let _ = re::math::Lerp::lerp(&a, &b, 0.5);
 }
 
-pub fn p1489() {
+pub fn p1537() {
     let a: re::math::vec::Vec3<re::render::Model> = mk();
     let b: re::math::point::Point3<()> = mk();
     let _ = re::math::Lerp::lerp(&a, &b, 0.5);
 }
 
-pub fn p1490() {
+pub fn p1538() {
     let a: re::math::vec::Vec3<re::render::Model> = mk();
     let b: re::math::point::Point3<re::render::World> = mk();
     let _ = re::math::Lerp::lerp(&a, &b, 0.5);
 }
 
-pub fn p1491() {
+pub fn p1539() {
+    let a: re::math::vec::Vec3<re::render::Model> = mk();
+    let b: re::math::angle::SphericalVec = mk();
+    let _ = a + b;
+}
+
+pub fn p1540() {
+    let a: re::math::vec::Vec3<re::render::Model> = mk();
+    let b: re::math::angle::SphericalVec = mk();
+    let _ = a + b.to_cart();
+}
+
+pub fn p1541() {
+    let a: re::math::vec::Vec3<re::render::Model> = mk();
+    let b: re::math::angle::SphericalVec = mk();
+    let _ = a + b.into();
+}
+
+pub fn p1542() {
     let a: re::math::vec::Vec3<re::render::Model> = mk();
     let b: re::math::vec::Vec2<re::render::Model> = mk();
     let _ = a + b;
 }
 
-pub fn p1492() {
+pub fn p1543() {
     let a: re::math::vec::Vec3<re::render::Model> = mk();
     let b: re::math::vec::Vec2<re::render::Model> = mk();
     let _ = a.dot(&b);
 }
 
-pub fn p1493() {
+pub fn p1544() {
     let a: re::math::vec::Vec3<re::render::Model> = mk();
     let b: re::math::vec::Vec2<re::render::Model> = mk();
     let _ = re::math::Lerp::lerp(&a, &b, 0.5);
 }
 
-pub fn p1494() {
+pub fn p1545() {
     let a: re::math::vec::Vec3<re::render::Model> = mk();
     let b: re::math::vec::Vec2<re::render::Model> = mk();
     let _ = a - b;
 }
 
-pub fn p1495() {
+pub fn p1546() {
     let a: re::math::vec::Vec3<re::render::Model> = mk();
     let b: re::math::vec::Vec2<()> = mk();
     let _ = a + b;
 }
 
-pub fn p1496() {
+pub fn p1547() {
     let a: re::math::vec::Vec3<re::render::Model> = mk();
     let b: re::math::vec::Vec2<()> = mk();
     let _ = a.dot(&b);
 }
 
-pub fn p1497() {
+pub fn p1548() {
     let a: re::math::vec::Vec3<re::render::Model> = mk();
     let b: re::math::vec::Vec2<()> = mk();
     let _ = re::math::Lerp::lerp(&a, &b, 0.5);
 }
 
-pub fn p1498() {
+pub fn p1549() {
     let a: re::math::vec::Vec3<re::render::Model> = mk();
     let b: re::math::vec::Vec2<()> = mk();
     let _ = a - b;
 }
 
-pub fn p1499() {
+pub fn p1550() {
     let a: re::math::vec::Vec3<re::render::Model> = mk();
     let b: re::math::vec::Vec2<re::render::World> = mk();
     let _ = a + b;
 }
 
-pub fn p1500() {
+pub fn p1551() {
     let a: re::math::vec::Vec3<re::render::Model> = mk();
     let b: re::math::vec::Vec2<re::render::World> = mk();
     let _ = a.dot(&b);
 }
 
-pub fn p1501() {
+pub fn p1552() {
     let a: re::math::vec::Vec3<re::render::Model> = mk();
     let b: re::math::vec::Vec2<re::render::World> = mk();
     let _ = re::math::Lerp::lerp(&a, &b, 0.5);
 }
 
-pub fn p1502() {
+pub fn p1553() {
     let a: re::math::vec::Vec3<re::render::Model> = mk();
     let b: re::math::vec::Vec2<re::render::World> = mk();
     let _ = a - b;
 }
 
-pub fn p1507() {
+pub fn p1558() {
     let a: re::math::vec::Vec3<re::render::Model> = mk();
     let b: re::math::vec::Vec3<()> = mk();
     let _ = a + b;
 }
 
-pub fn p1508() {
+pub fn p1559() {
     let a: re::math::vec::Vec3<re::render::Model> = mk();
     let b: re::math::vec::Vec3<()> = mk();
     let _ = a.dot(&b);
 }
 
-pub fn p1509() {
+pub fn p1560() {
     let a: re::math::vec::Vec3<re::render::Model> = mk();
     let b: re::math::vec::Vec3<()> = mk();
     let _ = re::math::Lerp::lerp(&a, &b, 0.5);
 }
 
-pub fn p1510() {
+pub fn p1561() {
     let a: re::math::vec::Vec3<re::render::Model> = mk();
     let b: re::math::vec::Vec3<()> = mk();
     let _ = a - b;
 }
 
-pub fn p1511() {
+pub fn p1562() {
     let a: re::math::vec::Vec3<re::render::Model> = mk();
     let b: re::math::vec::Vec3<re::render::World> = mk();
     let _ = a + b;
 }
 
-pub fn p1512() {
+pub fn p1563() {
     let a: re::math::vec::Vec3<re::render::Model> = mk();
     let b: re::math::vec::Vec3<re::render::World> = mk();
     let _ = a.dot(&b);
 }
 
-pub fn p1513() {
+pub fn p1564() {
     let a: re::math::vec::Vec3<re::render::Model> = mk();
     let b: re::math::vec::Vec3<re::render::World> = mk();
     let _ = re::math::Lerp::lerp(&a, &b, 0.5);
 }
 
-pub fn p1514() {
+pub fn p1565() {
     let a: re::math::vec::Vec3<re::render::Model> = mk();
     let b: re::math::vec::Vec3<re::render::World> = mk();
     let _ = a - b;
 }
 
-pub fn p1515() {
+pub fn p1567() {
     use re::geom::{Tri, Vertex};
     let vs = |_: Vertex<re::math::point::Point3<re::render::Model>, ()>, _: ()| -> Vertex<re::math::vec::Vec3<re::render::Model>, f32> { mk() };
     let fs = |_: re::render::raster::Frag<f32>| -> Option<re::math::color::Color4> { mk() };
@@ -7331,361 +7577,385 @@ pub fn p1515() {
     re::render::render(&tris, &verts, &sh, (), mk(), &mut target, &mk::<re::render::Context>());
 }
 
-pub fn p1516() {
-    let a: re::math::vec::Vec3<()> = mk();
-    let b: re::math::point::Point2<re::render::Model> = mk();
-    let _ = re::math::Lerp::lerp(&a, &b, 0.5);
-}
-
-pub fn p1517() {
-    let a: re::math::vec::Vec3<()> = mk();
-    let b: re::math::point::Point2<()> = mk();
-    let _ = re::math::Lerp::lerp(&a, &b, 0.5);
-}
-
-pub fn p1518() {
-    let a: re::math::vec::Vec3<()> = mk();
-    let b: re::math::point::Point2<re::render::World> = mk();
-    let _ = re::math::Lerp::lerp(&a, &b, 0.5);
-}
-
-pub fn p1519() {
-    let a: re::math::vec::Vec3<()> = mk();
-    let b: re::math::point::Point3<re::render::Model> = mk();
-    let _ = re::math::Lerp::lerp(&a, &b, 0.5);
-}
-
-pub fn p1520() {
-    let a: re::math::vec::Vec3<()> = mk();
-    let b: re::math::point::Point3<()> = mk();
-    let _ = re::math::Lerp::lerp(&a, &b, 0.5);
-}
-
-pub fn p1521() {
-    let a: re::math::vec::Vec3<()> = mk();
-    let b: re::math::point::Point3<re::render::World> = mk();
-    let _ = re::math::Lerp::lerp(&a, &b, 0.5);
-}
-
-pub fn p1522() {
-    let a: re::math::vec::Vec3<()> = mk();
-    let b: re::math::vec::Vec2<re::render::Model> = mk();
-    let _ = a + b;
-}
-
-pub fn p1523() {
-    let a: re::math::vec::Vec3<()> = mk();
-    let b: re::math::vec::Vec2<re::render::Model> = mk();
-    let _ = a.dot(&b);
-}
-
-pub fn p1524() {
-    let a: re::math::vec::Vec3<()> = mk();
-    let b: re::math::vec::Vec2<re::render::Model> = mk();
-    let _ = re::math::Lerp::lerp(&a, &b, 0.5);
-}
-
-pub fn p1525() {
-    let a: re::math::vec::Vec3<()> = mk();
-    let b: re::math::vec::Vec2<re::render::Model> = mk();
-    let _ = a - b;
-}
-
-pub fn p1526() {
-    let a: re::math::vec::Vec3<()> = mk();
-    let b: re::math::vec::Vec2<()> = mk();
-    let _ = a + b;
-}
-
-pub fn p1527() {
-    let a: re::math::vec::Vec3<()> = mk();
-    let b: re::math::vec::Vec2<()> = mk();
-    let _ = a.dot(&b);
-}
-
-pub fn p1528() {
-    let a: re::math::vec::Vec3<()> = mk();
-    let b: re::math::vec::Vec2<()> = mk();
-    let _ = re::math::Lerp::lerp(&a, &b, 0.5);
-}
-
-pub fn p1529() {
-    let a: re::math::vec::Vec3<()> = mk();
-    let b: re::math::vec::Vec2<()> = mk();
-    let _ = a - b;
-}
-
-pub fn p1530() {
-    let a: re::math::vec::Vec3<()> = mk();
-    let b: re::math::vec::Vec2<re::render::World> = mk();
-    let _ = a + b;
-}
-
-pub fn p1531() {
-    let a: re::math::vec::Vec3<()> = mk();
-    let b: re::math::vec::Vec2<re::render::World> = mk();
-    let _ = a.dot(&b);
-}
-
-pub fn p1532() {
-    let a: re::math::vec::Vec3<()> = mk();
-    let b: re::math::vec::Vec2<re::render::World> = mk();
-    let _ = re::math::Lerp::lerp(&a, &b, 0.5);
-}
-
-pub fn p1533() {
-    let a: re::math::vec::Vec3<()> = mk();
-    let b: re::math::vec::Vec2<re::render::World> = mk();
-    let _ = a - b;
-}
-
-pub fn p1534() {
-    let a: re::math::vec::Vec3<()> = mk();
-    let b: re::math::vec::Vec3<re::render::Model> = mk();
-    let _ = a + b;
-}
-
-pub fn p1535() {
-    let a: re::math::vec::Vec3<()> = mk();
-    let b: re::math::vec::Vec3<re::render::Model> = mk();
-    let _ = a.dot(&b);
-}
-
-pub fn p1536() {
-    let a: re::math::vec::Vec3<()> = mk();
-    let b: re::math::vec::Vec3<re::render::Model> = mk();
-    let _ = re::math::Lerp::lerp(&a, &b, 0.5);
-}
-
-pub fn p1537() {
-    let a: re::math::vec::Vec3<()> = mk();
-    let b: re::math::vec::Vec3<re::render::Model> = mk();
-    let _ = a - b;
-}
-
-pub fn p1542() {
-    let a: re::math::vec::Vec3<()> = mk();
-    let b: re::math::vec::Vec3<re::render::World> = mk();
-    let _ = a + b;
-}
-
-pub fn p1543() {
-    let a: re::math::vec::Vec3<()> = mk();
-    let b: re::math::vec::Vec3<re::render::World> = mk();
-    let _ = a.dot(&b);
-}
-
-pub fn p1544() {
-    let a: re::math::vec::Vec3<()> = mk();
-    let b: re::math::vec::Vec3<re::render::World> = mk();
-    let _ = re::math::Lerp::lerp(&a, &b, 0.5);
-}
-
-pub fn p1545() {
-    let a: re::math::vec::Vec3<()> = mk();
-    let b: re::math::vec::Vec3<re::render::World> = mk();
-    let _ = a - b;
-}
-
-pub fn p1550() {
-    let a: re::math::vec::Vec3<crate::UserTag> = mk();
-    let b: re::math::vec::Vec3<re::render::World> = mk();
-    let _ = a + b;
-}
-
-pub fn p1551() {
-    let a: re::math::vec::Vec3<crate::UserTag> = mk();
-    let b: re::math::vec::Vec3<re::render::World> = mk();
-    let _ = a.dot(&b);
-}
-
-pub fn p1552() {
-    let a: re::math::vec::Vec3<crate::UserTag> = mk();
-    let b: re::math::vec::Vec3<re::render::World> = mk();
-    let _ = re::math::Lerp::lerp(&a, &b, 0.5);
-}
-
-pub fn p1553() {
-    let a: re::math::vec::Vec3<crate::UserTag> = mk();
-    let b: re::math::vec::Vec3<re::render::World> = mk();
-    let _ = a - b;
-}
-
-pub fn p1554() {
-    let a: re::math::vec::Vec3<re::render::World> = mk();
-    let b: re::math::point::Point2<re::render::Model> = mk();
-    let _ = re::math::Lerp::lerp(&a, &b, 0.5);
-}
-
-pub fn p1555() {
-    let a: re::math::vec::Vec3<re::render::World> = mk();
-    let b: re::math::point::Point2<()> = mk();
-    let _ = re::math::Lerp::lerp(&a, &b, 0.5);
-}
-
-pub fn p1556() {
-    let a: re::math::vec::Vec3<re::render::World> = mk();
-    let b: re::math::point::Point2<re::render::World> = mk();
-    let _ = re::math::Lerp::lerp(&a, &b, 0.5);
-}
-
-pub fn p1557() {
-    let a: re::math::vec::Vec3<re::render::World> = mk();
-    let b: re::math::point::Point3<re::render::Model> = mk();
-    let _ = re::math::Lerp::lerp(&a, &b, 0.5);
-}
-
-pub fn p1558() {
-    let a: re::math::vec::Vec3<re::render::World> = mk();
-    let b: re::math::point::Point3<()> = mk();
-    let _ = re::math::Lerp::lerp(&a, &b, 0.5);
-}
-
-pub fn p1559() {
-    let a: re::math::vec::Vec3<re::render::World> = mk();
-    let b: re::math::point::Point3<re::render::World> = mk();
-    let _ = re::math::Lerp::lerp(&a, &b, 0.5);
-}
-
-pub fn p1560() {
-    let a: re::math::vec::Vec3<re::render::World> = mk();
-    let b: re::math::vec::Vec2<re::render::Model> = mk();
-    let _ = a + b;
-}
-
-pub fn p1561() {
-    let a: re::math::vec::Vec3<re::render::World> = mk();
-    let b: re::math::vec::Vec2<re::render::Model> = mk();
-    let _ = a.dot(&b);
-}
-
-pub fn p1562() {
-    let a: re::math::vec::Vec3<re::render::World> = mk();
-    let b: re::math::vec::Vec2<re::render::Model> = mk();
-    let _ = re::math::Lerp::lerp(&a, &b, 0.5);
-}
-
-pub fn p1563() {
-    let a: re::math::vec::Vec3<re::render::World> = mk();
-    let b: re::math::vec::Vec2<re::render::Model> = mk();
-    let _ = a - b;
-}
-
-pub fn p1564() {
-    let a: re::math::vec::Vec3<re::render::World> = mk();
-    let b: re::math::vec::Vec2<()> = mk();
-    let _ = a + b;
-}
-
-pub fn p1565() {
-    let a: re::math::vec::Vec3<re::render::World> = mk();
-    let b: re::math::vec::Vec2<()> = mk();
-    let _ = a.dot(&b);
-}
-
-pub fn p1566() {
-    let a: re::math::vec::Vec3<re::render::World> = mk();
-    let b: re::math::vec::Vec2<()> = mk();
-    let _ = re::math::Lerp::lerp(&a, &b, 0.5);
-}
-
-pub fn p1567() {
-    let a: re::math::vec::Vec3<re::render::World> = mk();
-    let b: re::math::vec::Vec2<()> = mk();
-    let _ = a - b;
-}
-
 pub fn p1568() {
-    let a: re::math::vec::Vec3<re::render::World> = mk();
-    let b: re::math::vec::Vec2<re::render::World> = mk();
+    let a: re::math::vec::Vec3<()> = mk();
+    let b: re::math::angle::PolarVec = mk();
     let _ = a + b;
 }
 
 pub fn p1569() {
-    let a: re::math::vec::Vec3<re::render::World> = mk();
-    let b: re::math::vec::Vec2<re::render::World> = mk();
-    let _ = a.dot(&b);
+    let a: re::math::vec::Vec3<()> = mk();
+    let b: re::math::angle::PolarVec = mk();
+    let _ = a + b.to_cart();
 }
 
 pub fn p1570() {
-    let a: re::math::vec::Vec3<re::render::World> = mk();
-    let b: re::math::vec::Vec2<re::render::World> = mk();
-    let _ = re::math::Lerp::lerp(&a, &b, 0.5);
+    let a: re::math::vec::Vec3<()> = mk();
+    let b: re::math::angle::PolarVec = mk();
+    let _ = a + b.into();
 }
 
 pub fn p1571() {
-    let a: re::math::vec::Vec3<re::render::World> = mk();
-    let b: re::math::vec::Vec2<re::render::World> = mk();
-    let _ = a - b;
+    let a: re::math::vec::Vec3<()> = mk();
+    let b: re::math::point::Point2<re::render::Model> = mk();
+    let _ = re::math::Lerp::lerp(&a, &b, 0.5);
 }
 
 pub fn p1572() {
-    let a: re::math::vec::Vec3<re::render::World> = mk();
-    let b: re::math::vec::Vec3<re::render::Model> = mk();
-    let _ = a + b;
+    let a: re::math::vec::Vec3<()> = mk();
+    let b: re::math::point::Point2<()> = mk();
+    let _ = re::math::Lerp::lerp(&a, &b, 0.5);
 }
 
 pub fn p1573() {
-    let a: re::math::vec::Vec3<re::render::World> = mk();
-    let b: re::math::vec::Vec3<re::render::Model> = mk();
-    let _ = a.dot(&b);
+    let a: re::math::vec::Vec3<()> = mk();
+    let b: re::math::point::Point2<re::render::World> = mk();
+    let _ = re::math::Lerp::lerp(&a, &b, 0.5);
 }
 
 pub fn p1574() {
-    let a: re::math::vec::Vec3<re::render::World> = mk();
-    let b: re::math::vec::Vec3<re::render::Model> = mk();
+    let a: re::math::vec::Vec3<()> = mk();
+    let b: re::math::point::Point3<re::render::Model> = mk();
     let _ = re::math::Lerp::lerp(&a, &b, 0.5);
 }
 
 pub fn p1575() {
+    let a: re::math::vec::Vec3<()> = mk();
+    let b: re::math::point::Point3<()> = mk();
+    let _ = re::math::Lerp::lerp(&a, &b, 0.5);
+}
+
+pub fn p1576() {
+    let a: re::math::vec::Vec3<()> = mk();
+    let b: re::math::point::Point3<re::render::World> = mk();
+    let _ = re::math::Lerp::lerp(&a, &b, 0.5);
+}
+
+pub fn p1577() {
+    let a: re::math::vec::Vec3<()> = mk();
+    let b: re::math::angle::SphericalVec = mk();
+    let _ = a + b;
+}
+
+pub fn p1580() {
+    let a: re::math::vec::Vec3<()> = mk();
+    let b: re::math::vec::Vec2<re::render::Model> = mk();
+    let _ = a + b;
+}
+
+pub fn p1581() {
+    let a: re::math::vec::Vec3<()> = mk();
+    let b: re::math::vec::Vec2<re::render::Model> = mk();
+    let _ = a.dot(&b);
+}
+
+pub fn p1582() {
+    let a: re::math::vec::Vec3<()> = mk();
+    let b: re::math::vec::Vec2<re::render::Model> = mk();
+    let _ = re::math::Lerp::lerp(&a, &b, 0.5);
+}
+
+pub fn p1583() {
+    let a: re::math::vec::Vec3<()> = mk();
+    let b: re::math::vec::Vec2<re::render::Model> = mk();
+    let _ = a - b;
+}
+
+pub fn p1584() {
+    let a: re::math::vec::Vec3<()> = mk();
+    let b: re::math::vec::Vec2<()> = mk();
+    let _ = a + b;
+}
+
+pub fn p1585() {
+    let a: re::math::vec::Vec3<()> = mk();
+    let b: re::math::vec::Vec2<()> = mk();
+    let _ = a.dot(&b);
+}
+
+pub fn p1586() {
+    let a: re::math::vec::Vec3<()> = mk();
+    let b: re::math::vec::Vec2<()> = mk();
+    let _ = re::math::Lerp::lerp(&a, &b, 0.5);
+}
+
+pub fn p1587() {
+    let a: re::math::vec::Vec3<()> = mk();
+    let b: re::math::vec::Vec2<()> = mk();
+    let _ = a - b;
+}
+
+pub fn p1588() {
+    let a: re::math::vec::Vec3<()> = mk();
+    let b: re::math::vec::Vec2<re::render::World> = mk();
+    let _ = a + b;
+}
+
+pub fn p1589() {
+    let a: re::math::vec::Vec3<()> = mk();
+    let b: re::math::vec::Vec2<re::render::World> = mk();
+    let _ = a.dot(&b);
+}
+
+pub fn p1590() {
+    let a: re::math::vec::Vec3<()> = mk();
+    let b: re::math::vec::Vec2<re::render::World> = mk();
+    let _ = re::math::Lerp::lerp(&a, &b, 0.5);
+}
+
+pub fn p1591() {
+    let a: re::math::vec::Vec3<()> = mk();
+    let b: re::math::vec::Vec2<re::render::World> = mk();
+    let _ = a - b;
+}
+
+pub fn p1592() {
+    let a: re::math::vec::Vec3<()> = mk();
+    let b: re::math::vec::Vec3<re::render::Model> = mk();
+    let _ = a + b;
+}
+
+pub fn p1593() {
+    let a: re::math::vec::Vec3<()> = mk();
+    let b: re::math::vec::Vec3<re::render::Model> = mk();
+    let _ = a.dot(&b);
+}
+
+pub fn p1594() {
+    let a: re::math::vec::Vec3<()> = mk();
+    let b: re::math::vec::Vec3<re::render::Model> = mk();
+    let _ = re::math::Lerp::lerp(&a, &b, 0.5);
+}
+
+pub fn p1595() {
+    let a: re::math::vec::Vec3<()> = mk();
+    let b: re::math::vec::Vec3<re::render::Model> = mk();
+    let _ = a - b;
+}
+
+pub fn p1600() {
+    let a: re::math::vec::Vec3<()> = mk();
+    let b: re::math::vec::Vec3<re::render::World> = mk();
+    let _ = a + b;
+}
+
+pub fn p1601() {
+    let a: re::math::vec::Vec3<()> = mk();
+    let b: re::math::vec::Vec3<re::render::World> = mk();
+    let _ = a.dot(&b);
+}
+
+pub fn p1602() {
+    let a: re::math::vec::Vec3<()> = mk();
+    let b: re::math::vec::Vec3<re::render::World> = mk();
+    let _ = re::math::Lerp::lerp(&a, &b, 0.5);
+}
+
+pub fn p1603() {
+    let a: re::math::vec::Vec3<()> = mk();
+    let b: re::math::vec::Vec3<re::render::World> = mk();
+    let _ = a - b;
+}
+
+pub fn p1609() {
+    let a: re::math::vec::Vec3<crate::UserTag> = mk();
+    let b: re::math::vec::Vec3<re::render::World> = mk();
+    let _ = a + b;
+}
+
+pub fn p1610() {
+    let a: re::math::vec::Vec3<crate::UserTag> = mk();
+    let b: re::math::vec::Vec3<re::render::World> = mk();
+    let _ = a.dot(&b);
+}
+
+pub fn p1611() {
+    let a: re::math::vec::Vec3<crate::UserTag> = mk();
+    let b: re::math::vec::Vec3<re::render::World> = mk();
+    let _ = re::math::Lerp::lerp(&a, &b, 0.5);
+}
+
+pub fn p1612() {
+    let a: re::math::vec::Vec3<crate::UserTag> = mk();
+    let b: re::math::vec::Vec3<re::render::World> = mk();
+    let _ = a - b;
+}
+
+pub fn p1613() {
+    let a: re::math::vec::Vec3<re::render::World> = mk();
+    let b: re::math::point::Point2<re::render::Model> = mk();
+    let _ = re::math::Lerp::lerp(&a, &b, 0.5);
+}
+
+pub fn p1614() {
+    let a: re::math::vec::Vec3<re::render::World> = mk();
+    let b: re::math::point::Point2<()> = mk();
+    let _ = re::math::Lerp::lerp(&a, &b, 0.5);
+}
+
+pub fn p1615() {
+    let a: re::math::vec::Vec3<re::render::World> = mk();
+    let b: re::math::point::Point2<re::render::World> = mk();
+    let _ = re::math::Lerp::lerp(&a, &b, 0.5);
+}
+
+pub fn p1616() {
+    let a: re::math::vec::Vec3<re::render::World> = mk();
+    let b: re::math::point::Point3<re::render::Model> = mk();
+    let _ = re::math::Lerp::lerp(&a, &b, 0.5);
+}
+
+pub fn p1617() {
+    let a: re::math::vec::Vec3<re::render::World> = mk();
+    let b: re::math::point::Point3<()> = mk();
+    let _ = re::math::Lerp::lerp(&a, &b, 0.5);
+}
+
+pub fn p1618() {
+    let a: re::math::vec::Vec3<re::render::World> = mk();
+    let b: re::math::point::Point3<re::render::World> = mk();
+    let _ = re::math::Lerp::lerp(&a, &b, 0.5);
+}
+
+pub fn p1619() {
+    let a: re::math::vec::Vec3<re::render::World> = mk();
+    let b: re::math::vec::Vec2<re::render::Model> = mk();
+    let _ = a + b;
+}
+
+pub fn p1620() {
+    let a: re::math::vec::Vec3<re::render::World> = mk();
+    let b: re::math::vec::Vec2<re::render::Model> = mk();
+    let _ = a.dot(&b);
+}
+
+pub fn p1621() {
+    let a: re::math::vec::Vec3<re::render::World> = mk();
+    let b: re::math::vec::Vec2<re::render::Model> = mk();
+    let _ = re::math::Lerp::lerp(&a, &b, 0.5);
+}
+
+pub fn p1622() {
+    let a: re::math::vec::Vec3<re::render::World> = mk();
+    let b: re::math::vec::Vec2<re::render::Model> = mk();
+    let _ = a - b;
+}
+
+pub fn p1623() {
+    let a: re::math::vec::Vec3<re::render::World> = mk();
+    let b: re::math::vec::Vec2<()> = mk();
+    let _ = a + b;
+}
+
+pub fn p1624() {
+    let a: re::math::vec::Vec3<re::render::World> = mk();
+    let b: re::math::vec::Vec2<()> = mk();
+    let _ = a.dot(&b);
+}
+
+pub fn p1625() {
+    let a: re::math::vec::Vec3<re::render::World> = mk();
+    let b: re::math::vec::Vec2<()> = mk();
+    let _ = re::math::Lerp::lerp(&a, &b, 0.5);
+}
+
+pub fn p1626() {
+    let a: re::math::vec::Vec3<re::render::World> = mk();
+    let b: re::math::vec::Vec2<()> = mk();
+    let _ = a - b;
+}
+
+pub fn p1627() {
+    let a: re::math::vec::Vec3<re::render::World> = mk();
+    let b: re::math::vec::Vec2<re::render::World> = mk();
+    let _ = a + b;
+}
+
+pub fn p1628() {
+    let a: re::math::vec::Vec3<re::render::World> = mk();
+    let b: re::math::vec::Vec2<re::render::World> = mk();
+    let _ = a.dot(&b);
+}
+
+pub fn p1629() {
+    let a: re::math::vec::Vec3<re::render::World> = mk();
+    let b: re::math::vec::Vec2<re::render::World> = mk();
+    let _ = re::math::Lerp::lerp(&a, &b, 0.5);
+}
+
+pub fn p1630() {
+    let a: re::math::vec::Vec3<re::render::World> = mk();
+    let b: re::math::vec::Vec2<re::render::World> = mk();
+    let _ = a - b;
+}
+
+pub fn p1631() {
+    let a: re::math::vec::Vec3<re::render::World> = mk();
+    let b: re::math::vec::Vec3<re::render::Model> = mk();
+    let _ = a + b;
+}
+
+pub fn p1632() {
+    let a: re::math::vec::Vec3<re::render::World> = mk();
+    let b: re::math::vec::Vec3<re::render::Model> = mk();
+    let _ = a.dot(&b);
+}
+
+pub fn p1633() {
+    let a: re::math::vec::Vec3<re::render::World> = mk();
+    let b: re::math::vec::Vec3<re::render::Model> = mk();
+    let _ = re::math::Lerp::lerp(&a, &b, 0.5);
+}
+
+pub fn p1634() {
     let a: re::math::vec::Vec3<re::render::World> = mk();
     let b: re::math::vec::Vec3<re::render::Model> = mk();
     let _ = a - b;
 }
 
-pub fn p1576() {
+pub fn p1635() {
     let a: re::math::vec::Vec3<re::render::World> = mk();
     let b: re::math::vec::Vec3<()> = mk();
     let _ = a + b;
 }
 
-pub fn p1577() {
+pub fn p1636() {
     let a: re::math::vec::Vec3<re::render::World> = mk();
     let b: re::math::vec::Vec3<()> = mk();
     let _ = a.dot(&b);
 }
 
-pub fn p1578() {
+pub fn p1637() {
     let a: re::math::vec::Vec3<re::render::World> = mk();
     let b: re::math::vec::Vec3<()> = mk();
     let _ = re::math::Lerp::lerp(&a, &b, 0.5);
 }
 
-pub fn p1579() {
+pub fn p1638() {
     let a: re::math::vec::Vec3<re::render::World> = mk();
     let b: re::math::vec::Vec3<()> = mk();
     let _ = a - b;
 }
 
-pub fn p1580() {
+pub fn p1639() {
     let a: re::math::vec::Vec3<re::render::World> = mk();
     let b: re::math::vec::Vec3<crate::UserTag> = mk();
     let _ = a + b;
 }
 
-pub fn p1581() {
+pub fn p1640() {
     let a: re::math::vec::Vec3<re::render::World> = mk();
     let b: re::math::vec::Vec3<crate::UserTag> = mk();
     let _ = a.dot(&b);
 }
 
-pub fn p1582() {
+pub fn p1641() {
     let a: re::math::vec::Vec3<re::render::World> = mk();
     let b: re::math::vec::Vec3<crate::UserTag> = mk();
     let _ = re::math::Lerp::lerp(&a, &b, 0.5);
 }
 
-pub fn p1583() {
+pub fn p1642() {
     let a: re::math::vec::Vec3<re::render::World> = mk();
     let b: re::math::vec::Vec3<crate::UserTag> = mk();
     let _ = a - b;
